@@ -12,1729 +12,1920 @@ Definition show_fres (r : fres) : string :=
   end.
 Definition check (rs : list rune) : string := digest (show_fres (format_res rs)).
 Definition full (rs : list rune) : string := show_fres (format_res rs).
-Eval vm_compute in ("<<<M134>>>" ++ check (runes_of_ascii "packet int
-    {
-match Pad as	Z9_ { [65535,
-    ""// no comment"" , ""a	b""//x
-, // " ++ [128512]%N ++ runes_of_ascii " emoji
-""CRC32"" ,
-00 , 0123456789 , 0]
-:  Z9_
-4294967296
-: stringy ,""""//
-: f32a
-    ,
-"""" :
-//	t
-// " ++ [27880; 37322]%N ++ runes_of_ascii "
-Header, [""it's"" , 1,""1"" ] :
-msg_type , } , @leftPad ( )
-f32 Foo
-    // `tick` ""quote"" 'q'
-    ``	, charz {
-repeat int8
-options1  ,repeat  char[]
-T
-,
-repeat string
-crc // c
-`doc`
-    //x
-    , uint8x`a\`
-    ,} ,} packet
-    Logon{ A, u8
-metadata , @lengthOf( trueish )
-// a // b
-// packet A { u8 x, }
-@lengthOf(u8x) @lengthOf( A)
-    // " ++ [27880; 37322]%N ++ runes_of_ascii "
-    repeat string
-trueish
-    // " ++ [128512]%N ++ runes_of_ascii " emoji
-    , @tag( 3) match
-    rootA as
-    Pad // @lengthOf(
-{42 :msg_type,[ 0
-    // a // b
-    ,
-// trailing space 
-// `tick` ""quote"" 'q'
-""" ++ [128512]%N ++ runes_of_ascii """ ,00
-] : asx
-, [ """ ++ [233]%N ++ runes_of_ascii "t" ++ [233]%N ++ runes_of_ascii """ ,""{,}""
-,""" ++ [233]%N ++ runes_of_ascii "t" ++ [233]%N ++ runes_of_ascii """ , 255 ] //	t
-:T ""x y"" : calculatedFrom
-[
-""a	b""	,0123456789	,
-    ""{,}"" ,
-    3 , 3
-, 7 ,
-    4294967296 ,  4294967296 ]: Header , [0,4294967296,
-    10
-    // packet A { u8 x, }
-    ,
-007 , 007 ,1 , ""1"",	""`tick`""
-    //	t
-    ] : Packet }/// triple
-,
-    zchar[
-0
-    ] asx @lengthOf( x_y_z
-    )
-`{ , }`
-,
-repeat char[
-    7 ] leftPad, stringy`` , falsey //
-repeatCount
-`{ , }` ,}packet
-    MetaDataX // packet A { u8 x, }
-{
-options1,	}
-    // " ++ [27880; 37322]%N ++ runes_of_ascii "
-    packet
-    zchar { // " ++ [27880; 37322]%N ++ runes_of_ascii "
-uint16 falsey ,  match string_ as BodyLength {
-[
-    4294967296 , 42 ,255 , ""1""
-, """ ++ [28040; 24687]%N ++ runes_of_ascii """ ,""packet"" ,""`tick`"" ]
-: Logon ,
-7 : packetx , } , @leftPad  (
-) @calculatedFrom(
-    /// triple
-    ""\n"" )
-    @leftPad  () match T as
-packetx {""1"" :options1, } //
-,uint8 MetaDataX@lengthOf(	roots  ), @tag( 0123456789 //	t
-) body// packet A { u8 x, }
-@calculatedFrom( ""packet"" // @lengthOf(
-)
-// c
-// trailing space 
-`{ , }` ,@lengthOf(	roots )
-zchar[ 0123456789 ]
-repeatCount
-    , repeat int32 matchKey `a\` , @lengthOf(
-    options1 )u8 pack , @rightPad( ' ' ) float32 f32a
-    , @rightPad (
-    /// triple
-    '\x00' )
-    @rightPad(	) @calculatedFrom(// trailing space 
-""CRC32"" )repeat
-pack { // @lengthOf(
-zchar[00 ] falsey ``
-    , match calculatedFrom	as // c
-leftPad { 65535 // trailing space 
-: // packet A { u8 x, }
-Z9_
-    , 007//x
-:
-charz,} , repeat zchar[7] Pad ,} , }
-//x
-")).
-Eval vm_compute in ("<<<M3960>>>" ++ check (runes_of_ascii "MetaData BodyLength {
-    zchar[42] falsey,
-    x_y_z trueish `{ , }`,
-    options1 Header `
-        `,
-    uint8 Header `tab	here`,
-    uint8 zchar,
-    float64 len,
+Eval vm_compute in ("<<<M4268>>>" ++ check (runes_of_ascii "options {
+    BodyLength = string;
+    trueish = ""it's""
+    i8i8 = ""// no comment""
+    // trailing space 
+    roots = """ ++ [28040; 24687]%N ++ runes_of_ascii """;// a // b
+    falsey = '\x00';
 }
 
-packet chars {
-    zchar[00] options1,
-    zchar[7] Header,
-    @tag(0)
-    char[] MetaDataX `line1
-        line2`,
-    repeat metadata {
-        i64 MetaDataX,
-        int8 o,
-        leftPad Pad,
-        string Z9_ `u8 x,`,
-    },
-    @leftPad('0')
-    u64 calculatedFrom @calculatedFrom(""a\""b""),
-    @lengthOf(leftPad)
-    repeat Foo `line1
-        line2`,
-}
-
-packet options1 {
-    @tag(00)
-    body asx,
-    // a // b
-    // " ++ [128512]%N ++ runes_of_ascii " emoji
-    repeat MetaDataX {
-        repeat i64 u8x `" ++ [233]%N ++ runes_of_ascii "`,
-    },
-    pack @calculatedFrom(""CRC32"") `
-        `,
-    repeat Pad {
-        Foo {
-            repeat i8i8,
-            MetaDataX,
-            // @lengthOf(
-            lengthOf @calculatedFrom(""abc"") `// not a comment`,/// triple
+packet metadata {
+    packetx {
+        repeat rootA x_y_z `tab	here`,
+        repeat pack,
+        Logon {
+            u16 msg_type,
+            u8 BodyLength `
+            `,
+            zchar[3] int,
+        },
+        a1 T,
+    },// `tick` ""quote"" 'q'
+    repeat f32 o `crlf
+    line`,
+    i32 rootA,
+    int32 matchKey,
+    @leftPad()
+    x_y_z {
+        match body as u8x {
+            [""{,}""] : u8x,
+            3 : u8x,
+            4294967296 : As,
+            [""CRC32""] : A,
+            255 : body,
+            // c
+            42 : x_y_z,
         },
     },
-    float64 string_ @calculatedFrom(""it's"") `u8 x,`,
-    i8 Z9_ @lengthOf(_x),
-    BodyLength matchKey `tab	here`,
-    uint64 As @calculatedFrom(""// no comment""),
+    repeat body float,
+}// trailing space 
+
+packet trueish {
+    stringy @lengthOf(float) `{ , }`,
+    repeat i64_,
+    uint16 string_ @calculatedFrom(""\" ++ [233]%N ++ runes_of_ascii """) `
+    `,// a // b
+    @tag(0123456789)
+    char[4294967296] calculatedFrom @lengthOf(int) `line1
+    line2`,// packet A { u8 x, }
+    match rootA as asx {
+        ""\" ++ [233]%N ++ runes_of_ascii """ : f32a,
+        ""\n"" : rootA,
+        [""a\\"", 0123456789] : crc,
+        1 : msg_type,
+        ""a	b"" : stringy,
+    },
+    repeat len {
+        string_ {
+            i16 _x,
+            _x {
+                repeat uint8x a1,
+                char[42] zchar `say ""hi""`,
+                zchar[7] uint8x,
+            },
+            repeat i8i8 body,
+        },
+        uint8 T @lengthOf(repeatCount),
+    },
 }
 
-packet leftPad {
-    match packetx as Foo {
-        [3, ""x y""] : As,
-        00 : leftPad,
-        [""\n"", """"] : MetaDataX,
-        00 : x,
-        """" : int,
+root packet asx {
+    @calculatedFrom(""x y"")
+    repeat pack,
+    repeat string_ {
+        u8 metadata,
     },
-    i32 Foo,
-    repeat string roots,
-    repeat body chars `" ++ [28040; 24687; 31867; 22411]%N ++ runes_of_ascii "`,
-    int `" ++ [233]%N ++ runes_of_ascii "`,
-    @rightPad(' ')
-    string BodyLength,
-    @lengthOf(lengthOf)
-    char uint8x `line1
-        line2`,
-    zchar[00] repeatCount @calculatedFrom(""" ++ [28040; 24687]%N ++ runes_of_ascii """),
-    @calculatedFrom(""a	b"")
-    falsey @calculatedFrom(""1"") `crlf
-        line`,
-}//x
+    @calculatedFrom(""abc"")
+    roots @lengthOf(T) ``,
+    match asx as uint8x {
+        3 : u8x,
+    },// trailing space 
+    u8x @calculatedFrom(""{,}""),
+}
 
-packet Header {
-    @calculatedFrom(""" ++ [28040; 24687]%N ++ runes_of_ascii """)
-    int64 u `crlf
-        line`,
-    @calculatedFrom(""CRC32"")
-    // packet A { u8 x, }
-    int64 uint8x,
-    char[255] Foo `
-        `,
-}")).
-Eval vm_compute in ("<<<M4254>>>" ++ check (runes_of_ascii "// top
+packet o {
+    string Logon,
+    charz metadata,
+    match len as float {
+        255 : uint8x,
+        ""CRC32"" : As,
+        1 : body,
+        7 : options1,
+        [""" ++ [128512]%N ++ runes_of_ascii """, ""it's""] : repeatCount,
+    },
+    @leftPad()
+    @calculatedFrom(""x y"")
+    @leftPad(' ')
+    repeat lengthOf,
+    zchar[42] Logon @calculatedFrom(""""),
+}
+//x")).
+Eval vm_compute in ("<<<M4076>>>" ++ check (runes_of_ascii "// top
 options {
-    // c1a
-    // c1b
-    LittleEndian = true;// c5
-    StringPrefixLenType = u32;
-    FixedStringPadChar = '0';
-}// c14
-
-packet Logout {
-    // c17a
+    // c1
+    StringPrefixLenType = u8;
+    ArrayPrefixLenType = u32;// c9
+    FixedStringPadFromLeft = false;
+    // c13
+    FixedStringPadChar = ' ';// c17a
     // c17b
-    repeat InMsgkind49 {
-        // c20
-        u8 pad0,
-    },// c25a
-    // c25b
-    repeat char[5] seqNo,// c31a
-    // c31b
-    repeat u8 price,
-}// c36a
+}// c18a
 
-// c36b
+// c18b
 packet Party {
+    // c21a
+    // c21b
+    repeat i16 Qty,// c25a
+    // c25b
+    repeat string Tail,
+    i8 OrderId,// c32a
+    // c32b
+    i8 msgKind,// c35a
+    // c35b
+}
+
+packet Ack {
+    // c39
+    Party,
+    repeat InRef20 {
+        Party,
+        int8 tag7,
+        // c49
+        char[5] OrderId,
+        zchar[7] Tail,// c59
+        char[] count,// c62a
+        // c62b
+        InPrice45 {
+            // c64
+            Party,// c66a
+            // c66b
+            char[1] Px,
+            // c71
+        },
+    },// c75a
+    // c75b
+    char[12] price,// c80
+    int8 sym,// c83
+}
+
+packet Reject {
+    // c87
+    repeat InPrice47 {
+        // c90a
+        // c90b
+        Party,// c92a
+        // c92b
+    },// c94a
+    // c94b
+    zchar[4] x,// c99
+    repeat Ack,// c102
+    zchar[2] Ref,
+    // c107
+    repeat Party,// c110a
+    // c110b
+}// c111
+
+packet Cancel {
+    // c114a
+    // c114b
+    Reject,
+    // c116
+    repeat string f1,
+    // c120
+    uint16 OrderId,
+    // c123
+    u8 Acct,// c126a
+    // c126b
+    int8 msgKind,
+}// c130
+
+root packet Fill {
+    u8 count,
+    char[] tag7,
+    // c140
+    zchar[7] Acct,// c145a
+    // c145b
+    u32 OrderId,
+    // c148
+    u32 Note @lengthOf(Body),// c154a
+    // c154b
+    match OrderId as Body {
+        // c159a
+        // c159b
+        106 : Cancel,
+        196 : Reject,
+        // c167
+        74 : Party,
+        // c171
+        75 : Ack,
+    },// c177a
+    // c177b
+}// c178a
+// c178b")).
+Eval vm_compute in ("<<<M4319>>>" ++ check (runes_of_ascii "
+packet	Z9_
+{
+	repeat
+
+charz { match 
+chars 
+as
+	T	{  // trailing space 
+
+""// no comment""  //
+      : float ,
+42 :
+
+string_,
+    } 
+, 	 // " ++ [128512]%N ++ runes_of_ascii " emoji
+	}
+
+,
+	@calculatedFrom( ""CRC32""	)	trueish @lengthOf(
+	As  )
+    `" ++ [28040; 24687; 31867; 22411]%N ++ runes_of_ascii "`  ,	@lengthOf(_x
+	)
+falsey @lengthOf(zchar	) `two words` 
+, 
+@lengthOf( x)
+
+string chars
+
+@lengthOf(
+
+    int 
+)
+
+    ,
+	f32
+
+options1  
+      // @lengthOf(
+  , @lengthOf( 
+
+// `tick` ""quote"" 'q'
+	Pad
+
+)
+match
+
+    len
+
+    as 
+leftPad {
+4294967296
+: 
+
+    /// triple
+	rootA  42 : Z9_
+    ,
+
+    }  , 
+}
+    options
+{ T= true}
+    MetaData 
+repeatCount {
+char[]  string_
+    `" ++ [233]%N ++ runes_of_ascii "`  ,f64
+	Z9_
+,f32  _x ,
+
+    }  /// triple
+packet
+
+    chars{
+
+    match
+    trueish
+as asx 	 /// triple
+    {0123456789
+:
+    chars
+
+,
+    }
+	,
+@tag(
+
+    10
+) repeat
+rootA `" ++ [233]%N ++ runes_of_ascii "`,
+
+zchar[255	]  MetaDataX `doc`
+
+    ,u16 
+Header `" ++ [233]%N ++ runes_of_ascii "`
+
+    ,	@leftPad
+    (
+    ' '
+
+    ) match  trueish
+
+    as	a1 {
+""" ++ [28040; 24687]%N ++ runes_of_ascii """ : 
+As	,
+
+1:pack
+    ,
+1 :
+repeatCount ,[ 7
+] :// packet A { u8 x, }
+	  u
+,
+},	@lengthOf(
+
+    tag
+)  u128 { int32 	 // " ++ [128512]%N ++ runes_of_ascii " emoji
+	tag @lengthOf(
+	u8x
+
+)
+	,	}  ,	// trailing space 
+      @lengthOf( u 
+)
+
+@calculatedFrom( 
+""a	b"" )
+    @tag( 
+00
+
+) // c
+i64
+	calculatedFrom @lengthOf(	calculatedFrom ) `" ++ [28040; 24687; 31867; 22411]%N ++ runes_of_ascii "` 
+,
+}packet pack 
+    // packet A { u8 x, }
+  {
+    @calculatedFrom( 
+""\n""// `tick` ""quote"" 'q'
+      )
+
+    string
+	i8i8 
+`line1
+line2`
+,  }
+")).
+Eval vm_compute in ("<<<M4469>>>" ++ check (runes_of_ascii "// top
+options {
+    // c1
+    LittleEndian = false;// c5a
+    // c5b
+    StringPrefixLenType = u16;// c9
+    ArrayPrefixLenType = u64;
+    FixedStringPadFromLeft = true;// c17a
+    // c17b
+    FixedStringPadChar = ' ';// c21
+}// c22a
+
+// c22b
+packet Logon {
+    // c25
+    u16 Tail,
+    repeat string x,
+    i16 count,
+    @leftPad('0')
     // c39a
     // c39b
-    zchar[7] Qty,
-}// c45a
+    char[3] Note,
+}// c45
 
-// c45b
-packet Logon {
+packet Fill {
     // c48
+}
+
+// c49
+packet Heartbeat {
+    // c52
+}// c53
+
+packet Reject {
+    // c56
+    string msgKind,// c59a
+    // c59b
+    repeat Logon,// c62
+    InFlags25 {
+        repeat InPrice29 {
+            u8 price,// c70a
+            // c70b
+            Logon,
+            repeat char[1] Note,
+        },// c80
+        char[] x,// c83
+        Fill,// c85
+    },
+    repeat Heartbeat,// c90a
+    // c90b
+}// c91a
+
+// c91b
+root packet Order {
+    InNote88 {
+        // c97
+        repeat i32 Acct,
+        // c101
+        repeat i16 clOrdID,// c105a
+        // c105b
+        repeat Logon,
+    },// c110a
+    // c110b
+    u16 tag7,
+    // c113
+    match tag7 as Body {
+        [14, 22] : Logon,
+        // c126
+        55 : Heartbeat,
+        // c130
+        93 : Reject,
+        // c134a
+        // c134b
+        13 : Fill,
+        // c138
+    },// c140a
+    // c140b
+}
+// c141")).
+Eval vm_compute in ("<<<M4094>>>" ++ check (runes_of_ascii "  packet
+options1{
+    body int	`" ++ [28040; 24687; 31867; 22411]%N ++ runes_of_ascii "` 
+,	}
+
+    MetaData 
+T// " ++ [27880; 37322]%N ++ runes_of_ascii "
+{ 
+leftPad 
+charz	,
+o
+    roots  ,
+
+} packet float { @lengthOf( x_y_z
+)
+
+repeat	i8
+	    // `tick` ""quote"" 'q'
+  	calculatedFrom 
+`" ++ [233]%N ++ runes_of_ascii "`  , repeat
+stringy
+    `
+`  ,  @tag(007
+)
+	    /// triple
+	  @rightPad
+	(' ' ) f32a
+    @lengthOf(  len	)
+	,
+
+@lengthOf(  u8x
+
+    ) match
+chars
+as metadata
+	{""x y""  :
+matchKey
+	,  // trailing space 
+		""a\""b""  :	zchar
+    ,  [	""a\\"" ,
+4294967296 ]
+
+    :	calculatedFrom
+,
+	1
+:T
+
+,
+	7
+    : i8i8
+, }
+
+, u128
+	tag
+	`" ++ [233]%N ++ runes_of_ascii "` 
+,
+
+T 
+@calculatedFrom(
+	""{,}"")
+`doc` 
+, 
+  /// triple
+// c
+		} packet
+    uint8x{  } root // `tick` ""quote"" 'q'
+		packet  zchar
+
+{
+    @tag(
+// packet A { u8 x, }
+1 ) match	packetx as calculatedFrom{	007 
+:
+
+chars, """ ++ [128512]%N ++ runes_of_ascii """
+:
+crc
+
+    , ""a	b"" :
+
+Foo// @lengthOf(
+    ,
+
+    42:
+
+    u8x , [""\" ++ [233]%N ++ runes_of_ascii """ ] 
+:  u8x
+
+,
+[
+    ""it's""  , ""1""
+
+, 
+1
+,
+
+""\n""
+	,
+	00]
+
+: MetaDataX
+
+    , } ,@tag(00  ) char
+
+    x
+,
+
+@leftPad(
+
+    '\x00' 
+) @calculatedFrom(  """ ++ [28040; 24687]%N ++ runes_of_ascii """
+
+)@lengthOf( 
+repeatCount  //
+
+	) u128
+	falsey `doc`
+,  // c
+    falsey@calculatedFrom( """" 
+)
+    ,
+float64 
+Logon  @calculatedFrom(
+""" ++ [28040; 24687]%N ++ runes_of_ascii """ )
+
+    //x
+  	// a // b
+    `it's`, } ")).
+Eval vm_compute in ("<<<M1338>>>" ++ check (runes_of_ascii "
+packet
+    crc { //x
+u16 // " ++ [128512]%N ++ runes_of_ascii " emoji
+charz , @leftPad (' ' )match
+    rootA as // packet A { u8 x, }
+BodyLength{
+    ""`tick`"":
+    u , }
+,
+@tag( 1 ) Logon `" ++ [233]%N ++ runes_of_ascii "`, uint16 metadata
+`// not a comment` , //
+@rightPad  ( )char[00
+] body
+// @lengthOf(
+// trailing space 
+,  BodyLength {	match f32a
+as // packet A { u8 x, }
+calculatedFrom
+// a // b
+// " ++ [128512]%N ++ runes_of_ascii " emoji
+{255 :
+len , 65535 :i8i8
+// " ++ [128512]%N ++ runes_of_ascii " emoji
+// " ++ [27880; 37322]%N ++ runes_of_ascii "
+007	:
+    uint8x , }
+    //
+    , repeat repeatCount
+// @lengthOf(
+/// triple
+{ repeat	char[ 1 ] string_ , repeat
+string roots , falsey len //x
+`
+` , repeat i64
+calculatedFrom ,
+    }, u16//
+leftPad @calculatedFrom(
+    ""x y"" //	t
+)
+`// not a comment` , } // `tick` ""quote"" 'q'
+, repeat zchar {
+f32 packetx @lengthOf(
+asx
+)
+    , a1
+stringy
+    , string_
+BodyLength
+    // packet A { u8 x, }
+    `" ++ [233]%N ++ runes_of_ascii "`
+    , },@rightPad
+( '0' )repeat
+o{repeat float f32a ,
+char
+packetx,char[] stringy// " ++ [27880; 37322]%N ++ runes_of_ascii "
+, } , } root
+packet float // trailing space 
+{ uint16
+    body  @lengthOf( body ) , match a1 as Header
+{""1""
+    : Z9_ , } , } options	{
+MetaDataX	= 255	; charz = '0' ; matchKey = ""`tick`""
+; rootA
+=//x
+'0'  ; }
+")).
+Eval vm_compute in ("<<<M957>>>" ++ check (runes_of_ascii "packet options1 {body int
+`" ++ [28040; 24687; 31867; 22411]%N ++ runes_of_ascii "` ,
+    }MetaData T // " ++ [27880; 37322]%N ++ runes_of_ascii "
+{ leftPad
+charz , o roots	, } packet float
+{ @lengthOf( x_y_z )repeat i8
+    // `tick` ""quote"" 'q'
+    calculatedFrom
+`" ++ [233]%N ++ runes_of_ascii "`
+,repeat stringy `
+` , @tag( 007)
+    /// triple
+    @rightPad
+    ( ' ' ) f32a
+    @lengthOf(
+len ) , @lengthOf(  u8x )	match
+chars
+as metadata { ""x y""
+    :
+matchKey, // trailing space 
+""a\""b"" :
+zchar
+, [
+    ""a\\"", 4294967296 ] :
+calculatedFrom , 1  : T,
+    7
+: i8i8 ,
+}
+, u128 tag
+    `" ++ [233]%N ++ runes_of_ascii "`,T
+@calculatedFrom( ""{,}"" )
+    `doc`,
+/// triple
+// c
+}
+    packet  uint8x
+{
+    }root // `tick` ""quote"" 'q'
+packet zchar { @tag(
+    // packet A { u8 x, }
+    1 )
+match packetx as
+calculatedFrom { 007 : chars , """ ++ [128512]%N ++ runes_of_ascii """ :  crc,  ""a	b""
+: Foo // @lengthOf(
+,
+    42:u8x ,
+    [ ""\" ++ [233]%N ++ runes_of_ascii """] :
+u8x , [  ""it's"" , ""1"" ,
+1, ""\n""	,
+00
+]:
+MetaDataX ,
+} , @tag( 00 )
+char x ,
+@leftPad( '\x00')
+    @calculatedFrom( """ ++ [28040; 24687]%N ++ runes_of_ascii """) @lengthOf(repeatCount //
+)  u128 falsey`doc`,// c
+falsey @calculatedFrom( """" ),float64 Logon	@calculatedFrom( """ ++ [28040; 24687]%N ++ runes_of_ascii """ )
+//x
+// a // b
+`it's`,
+    }
+")).
+Eval vm_compute in ("<<<M3535>>>" ++ check (runes_of_ascii "options {
+    StringPrefixLenType = u32;
+    ArrayPrefixLenType = u8;
+    FixedStringPadFromLeft = false;
+}
+packet Logon {
+    i8 venue,
+    int16 f1,
+    zchar[8] Acct,
+    repeat InNote16 {
+        InQty73 {
+            float32 tag7,
+        },
+        f32 Acct,
+        zchar[5] sym,
+    },
+    uint16 Side2,
+    i32 lastPx,
+}
+packet Fill {
+    repeat InOrderid15 {
+        zchar[8] sym,
+        repeat char[2] OrderId,
+        repeat Logon,
+        InQty82 {
+            char[] Tail,
+            repeat Logon,
+            float64 price,
+            f64 Side2,
+        },
+        char[12] venue,
+        char[4] Px,
+    },
+    @rightPad('0') char[2] venue,
+    InPrice99 {
+        InAcct72 {
+            u8 pad0,
+        },
+        u32 OrderId,
+        Logon,
+    },
+}
+root packet Reject {
+    zchar[9] msgKind,
+    u32 venue,
+    u16 seqNo @lengthOf(Body),
+    match venue as Body {
+        57 : Fill,
+        8 : Logon,
+    },
+    u16 Tail @calculatedFrom(""CR\
+C32""),
+}
+")).
+Eval vm_compute in ("<<<M749>>>" ++ check (runes_of_ascii "root packet chars	{ @tag( 1) zchar[ 0123456789
+    ] MetaDataX,f32 Packet
+//x
+/// triple
+, @rightPad // a // b
+(	' ' ) repeat chars {o stringy	`crlf
+line`
+    , matchKey int ,},} packet
+// trailing space 
+//
+uint8x {
+match stringy  as
+    len
+{  ""CRC32"" : trueish // c
+, [ 3 ,	42]  :
+x_y_z	""CRC32"" : leftPad	,// " ++ [128512]%N ++ runes_of_ascii " emoji
+[ 3
+,
+42, ""a\\"", ""1""	,""it's""	, 255 ,  ""CRC32""
+,
+    0123456789 ] // c
+:
+    uint8x ,
+    //	t
+    [ 42,// " ++ [128512]%N ++ runes_of_ascii " emoji
+""a	b"" ,7 ,
+    65535
+    , 42 ,
+"""",""""
+    ]: x_y_z },
+    repeat
+    trueish
+    { repeat As	`u8 x,`, } ,repeat chars `two words`
+, @rightPad  ( '\x00' ) repeat
+    f64 _x `" ++ [233]%N ++ runes_of_ascii "`  , repeat i16 //
+u `say ""hi""` , // c
+@lengthOf(
+x
+) i8i8{ match
+options1	as a1 { 1 : u128 , }, }
+    , string
+    chars, repeat char[] Logon `it's` ,u8
+float @lengthOf(
+/// triple
+// c
+o ) `{ , }`,
+@lengthOf(int	)@tag(	1)
+asx
+    // `tick` ""quote"" 'q'
+    @calculatedFrom(""\" ++ [233]%N ++ runes_of_ascii """) , // `tick` ""quote"" 'q'
+}
+")).
+Eval vm_compute in ("<<<M3510>>>" ++ check (runes_of_ascii "options {
+    LittleEndian = true;
+    StringPrefixLenType = u32;
+    FixedStringPadChar = '0';
+}
+packet Logout {
+    repeat InMsgkind49 {
+        u8 pad0,
+    },
+    repeat char[5] seqNo,
+    repeat u8 price,
+}
+packet Party {
+    zchar[7] Qty,
+}
+packet Logon {
     repeat InRef10 {
-        // c51
         string price,
         char[] sym,
-        // c57
-        repeat Logout,// c60
+        repeat Logout,
     },
-    // c62
-    repeat char[3] count,// c68a
-    // c68b
-    repeat Party,// c71
-    char[] tag7,// c74a
-    @rightPad('0')
-    // c78
-    char[2] clOrdID,
-}// c84a
-
-// c84b
+    repeat char[3] count,
+    repeat Party,
+    char[] tag7,
+    @rightPad('0') char[2] clOrdID,
+}
 packet Order {
-    // c87
     InTail13 {
-        // c89
         Party,
     },
     repeat char[4] count,
 }
-
-// c100
 root packet Cancel {
-    // c104a
-    // c104b
-    Logout,// c106
-    @leftPad('0')
-    // c110a
-    // c110b
-    char[9] msgKind,
-    // c115
+    Logout,
+    @leftPad('0') char[9] msgKind,
     string lastPx,
-    // c118
-    string tag7,// c121a
-    // c121b
-    zchar[1] OrderId,// c126a
-    // c126b
+    string tag7,
+    zchar[1] OrderId,
     repeat Party,
-    // c129
-    u16 sym,// c132a
-    // c132b
-    u16 Acct @lengthOf(Body),// c138
+    u16 sym,
+    u16 Acct @lengthOf(Body),
     match sym as Body {
-        // c143a
-        // c143b
         [24, 44] : Logout,
         160 : Order,
-        // c155
         91 : Logon,
-        // c159
         43 : Party,
-    },// c165a
-    // c165b
-    u16 Tail @calculatedFrom(""CRC32""),// c171a
-}// c172")).
-Eval vm_compute in ("<<<M1049>>>" ++ check (runes_of_ascii "
-packet
-charz {  match Packet as x_y_z {
-    """" :f32a
-    , [255 // " ++ [27880; 37322]%N ++ runes_of_ascii "
-,
-4294967296 ,0 ,
-    4294967296 ,
-10 , 00
-]
-:
-crc""{,}"" :Foo , 65535	:
-    // a // b
-    Pad 10 :Logon,
-}
-    ,	repeat  Foo {
-match  tag
-as matchKey {[ 65535, 3 ]  :
-    //
-    body  , 10: A , 42 :
-    body
-    , 007 : As ,  [
-    // trailing space 
-    ""a\\""
-// " ++ [128512]%N ++ runes_of_ascii " emoji
-//x
-] : msg_type ,
-[
-0123456789, 255 ] : msg_type
-    /// triple
-    ,	} , u16// " ++ [128512]%N ++ runes_of_ascii " emoji
-MetaDataX
-, o { match
-    T as string_ { 0	:
-// packet A { u8 x, }
-/// triple
-trueish,
-    3 : MetaDataX ,
-    //x
-    ""packet"" :
-rootA ,
-    7 : o[
-""a\\""
-    // trailing space 
-    , 42 ,//
-0123456789 , ""a	b"",
-    // " ++ [27880; 37322]%N ++ runes_of_ascii "
-    ""packet"" ] /// triple
-: f32a , [ ""a	b""
-    , 4294967296 ,""packet""	, 65535 ] :
-    falsey,
-} ,}
-, },packetx u ``// c
-,@tag(	42
-    // a // b
-    )u32
-    f32a  ``
-,msg_type@lengthOf( matchKey )	`{ , }` ,  @leftPad ( ' ' )
-char[] asx @calculatedFrom( """ ++ [28040; 24687]%N ++ runes_of_ascii """
-    )
-    ,
-/// triple
-// " ++ [128512]%N ++ runes_of_ascii " emoji
-zchar[ 3 ]rootA ,	uint16 // a // b
-u8x `two words`
-, @rightPad
-('0' ) match zchar/// triple
-as
-repeatCount {
-    ""a\\"" : T , ""a\\"" : As,[ 255, ""// no comment"" , 4294967296 , ""x y""
-//	t
-//x
-, ""{,}""
-,	00 , 7 ,""it's"" ] :
-leftPad ,007//
-: zchar
-, ""a	b""
-    :
-    // packet A { u8 x, }
-    falsey,
-}
-, }options {
-lengthOf
-    = '0'// a // b
+    },
+    u16 Tail @calculatedFrom(""CRC32""),
 }
 ")).
-Eval vm_compute in ("<<<M913>>>" ++ check (runes_of_ascii "// packet A { u8 x, }
-root
-    packet
-    u128
-    {
-// packet A { u8 x, }
-// trailing space 
-len T
-`
-`	, match Foo as
-float { 0  : roots , [""`tick`"" ]
-    : //
-_x , } , @rightPad ( '0' ) @calculatedFrom( ""packet""  ) //
-char[] x_y_z
-    `crlf
-line` , i64 msg_type , @rightPad ( ' ' ) @lengthOf( // c
-roots)
-Pad @calculatedFrom( """ ++ [233]%N ++ runes_of_ascii "t" ++ [233]%N ++ runes_of_ascii """)`" ++ [233]%N ++ runes_of_ascii "`	, }
-    packet Logon { repeat len Z9_ , u8x@calculatedFrom( ""a\""b"" ) ,
-    repeat int8 rootA `
-` //
-,string
-//	t
-//	t
-Foo , // c
-@lengthOf( float ) repeat// " ++ [128512]%N ++ runes_of_ascii " emoji
-char[]
-options1  , } root
-packet x
-    { @tag( //x
-1
-    )repeat string_ , f64	lengthOf , @tag( // " ++ [27880; 37322]%N ++ runes_of_ascii "
-4294967296 ) repeat u8x
-len  `" ++ [233]%N ++ runes_of_ascii "`
+Eval vm_compute in ("<<<M4141>>>" ++ check (runes_of_ascii "packet  // " ++ [128512]%N ++ runes_of_ascii " emoji
+  BodyLength
+    {	zchar[ 
+10]
+x
+
+    @calculatedFrom(  """"	)
 ,
-//	t
-// `tick` ""quote"" 'q'
-@rightPad
-('\x00'  )@calculatedFrom(
-""CRC32"")
-    @tag( 3 ) falsey
-{
-    uint8 trueish
-    `two words`
-, // `tick` ""quote"" 'q'
-} // @lengthOf(
-,@calculatedFrom( """ ++ [233]%N ++ runes_of_ascii "t" ++ [233]%N ++ runes_of_ascii """ ) // " ++ [27880; 37322]%N ++ runes_of_ascii "
-repeat
-    zchar[00
-] // packet A { u8 x, }
-crc	`two words`,	T // " ++ [128512]%N ++ runes_of_ascii " emoji
-, match i64_ as
-    // " ++ [27880; 37322]%N ++ runes_of_ascii "
-    msg_type	{""{,}"" :
-u8x ""\" ++ [233]%N ++ runes_of_ascii """
-: T , [	7
-] : matchKey,
-""`tick`"" : len , 42 : matchKey
-,
-} , // c
-}
-    options { x= zchar[
-10 ] ; pack  = false
-repeatCount =
-true ; charz
-    = '0' BodyLength = ""// no comment""; }
+@lengthOf( string_ )
 
-")).
-Eval vm_compute in ("<<<M207>>>" ++ check (runes_of_ascii "
-root packet	msg_type {u128//
-, @calculatedFrom(
-""" ++ [233]%N ++ runes_of_ascii "t" ++ [233]%N ++ runes_of_ascii """ ) repeat char[
-    //
-    3]
-    metadata`crlf
-line`,
-char[255 ]	Pad
-,  asx @calculatedFrom(""packet"" )
-    , repeat stringy `tab	here`
-    ,
-//x
-//	t
-repeat //x
-As `two words`, @leftPad ( '\x00'
-    ) repeat matchKey`a\`	, @rightPad (' ' ) repeat/// triple
-Pad
-{ repeat
-    u
-,
-// trailing space 
-// packet A { u8 x, }
-repeat char[] uint8x , }
-    ,
-u128	{ repeat
-As `u8 x,` ,
-pack msg_type,	uint32 lengthOf @calculatedFrom( ""1""	), match roots as
-    // " ++ [128512]%N ++ runes_of_ascii " emoji
-    x{ ""{,}"" :
-    // " ++ [27880; 37322]%N ++ runes_of_ascii "
-    Pad
-    }
-    ,  } ,}
-root packet tag
-{string pack , } root
-packet u8x
-    {
-string
-    pack `doc` , @lengthOf( options1
-    )f32	matchKey @calculatedFrom( ""`tick`"" )
-`two words` , @leftPad (  '\x00' )@lengthOf( Packet) @tag( 007//x
-)
-int32
-    Pad	@calculatedFrom(""a\\""
-)
-, @calculatedFrom( """" ) string a1 @lengthOf( metadata ) ,match u128 as Foo {
-    [ ""`tick`"" ]
-: msg_type
-    ,
-    10 // a // b
-:
-msg_type, 00
-:  len, ""`tick`"" : _x ,1 : repeatCount
-    , [ 1 , //	t
-1 ] :
-    // packet A { u8 x, }
-    pack ,} , @leftPad ( )
-float64 pack
-    `
-` ,
-    }")).
-Eval vm_compute in ("<<<M4029>>>" ++ check (runes_of_ascii "packet a1 {
-    @rightPad(' ')
-    repeat a1,
-    //	t
-    repeat float32 i8i8 `two words`,
-    @lengthOf(A)
-    float zchar,
-    @rightPad('0')
-    uint32 o `doc`,
-    @calculatedFrom(""packet"")
-    repeat asx `crlf
-    line`,
-    @tag(007)
-    @calculatedFrom(""CRC32"")
-    repeat uint64 A `line1
-    line2`,
-    @leftPad('\x00')
-    // packet A { u8 x, }
-    //x
-    string stringy ``,
-    @rightPad('\x00')
-    @tag(255)
-    body @lengthOf(Z9_),
-    match x_y_z as falsey {
-        ""\" ++ [233]%N ++ runes_of_ascii """ : options1,
-    },
-    Logon falsey `say ""hi""`,
-}
-
-packet Foo {
-}
-
-options {
-    // @lengthOf(
-    // `tick` ""quote"" 'q'
-    f32a = ""a\""b"";
-    float = '0';
-    calculatedFrom = 65535;
-    msg_type = '0';
-    // trailing space 
-    A = """"
-}
-
-root packet string_ {
-    match float as u128 {
-        [""\n""] : Packet,
-    },
-}
-
-packet charz {
-    lengthOf @calculatedFrom(""" ++ [28040; 24687]%N ++ runes_of_ascii """),
-    @leftPad(' ')
-    repeat chars `" ++ [28040; 24687; 31867; 22411]%N ++ runes_of_ascii "`,
-    match leftPad as a1 {
-        ""`tick`"" : string_,
-        // c
-        // c
-        10 : string_,
-        4294967296 : Foo,
-    },
-}")).
-Eval vm_compute in ("<<<M354>>>" ++ check (runes_of_ascii "// a // b
-packet chars {
-    i64_ tag `say ""hi""` , }
-// " ++ [128512]%N ++ runes_of_ascii " emoji
-// `tick` ""quote"" 'q'
-packet tag {
-}// c
-packet roots
-    { repeat //x
-x_y_z `
-`	, } packet lengthOf { // c
-i64 int`{ , }` , @lengthOf( trueish
-    ) @lengthOf( stringy // packet A { u8 x, }
-) // @lengthOf(
-repeat
-x repeatCount`u8 x,`,
-    char[]
-rootA ,uint16 int @calculatedFrom( // " ++ [128512]%N ++ runes_of_ascii " emoji
-""\" ++ [233]%N ++ runes_of_ascii """ ) `say ""hi""`/// triple
-,@lengthOf(
-string_
-    // a // b
-    )char[]
-    int @calculatedFrom(
-""a\\"" )  , @tag( 0 )@calculatedFrom(""\n""  )// " ++ [128512]%N ++ runes_of_ascii " emoji
-i32
-string_  @lengthOf(
-    falsey ) `say ""hi""` ,@tag(3
-) @lengthOf( BodyLength
-) repeat Z9_ {match// " ++ [27880; 37322]%N ++ runes_of_ascii "
-T // @lengthOf(
-as charz { // packet A { u8 x, }
-[ 255
-, ""a\""b"" ,
-    """" , 00
-    , 0123456789 ,""\n"" , ""\" ++ [233]%N ++ runes_of_ascii """//x
-]:
-x_y_z
-3 : Foo ,
-    // @lengthOf(
-    }
-    ,char[ 4294967296 ] calculatedFrom@lengthOf( Z9_ )	, } , i64
-    trueish
-    @lengthOf( /// triple
-T) `" ++ [233]%N ++ runes_of_ascii "` , @lengthOf( body
-)
+metadata  , 
 @lengthOf(
-matchKey // `tick` ""quote"" 'q'
-) tag trueish `` , } packet Foo {
-}")).
-Eval vm_compute in ("<<<M954>>>" ++ check (runes_of_ascii "
-packet
-    zchar{
-repeat
-    // trailing space 
-    trueish _x,
-    @calculatedFrom(
-    ""\n"" )uint16  stringy `// not a comment`
-    , @rightPad /// triple
-( ' ' )
-    body
-    { leftPad	i8i8 ,	lengthOf {
-// " ++ [128512]%N ++ runes_of_ascii " emoji
-// " ++ [27880; 37322]%N ++ runes_of_ascii "
-int64 asx `// not a comment` ,
-leftPad {packetx @lengthOf(
-MetaDataX
-)
-, } , i32
-// trailing space 
-//	t
-o ,}
-// c
-/// triple
-,
-    }, f32 Z9_ `crlf
-line` ,
-    @calculatedFrom( ""abc""
-)calculatedFrom charz,
-repeat	zchar
-//x
-// `tick` ""quote"" 'q'
-Z9_, match T as
-o{	00 :
-    calculatedFrom  ,
-0123456789 : charz
-,
-    ""\" ++ [233]%N ++ runes_of_ascii """ :
-    a1} , @lengthOf( A
-) repeat
-    len
-, }root
-packet Pad { }
-    options
-    { msg_type = ""\n"" // packet A { u8 x, }
-trueish
-    // trailing space 
-    =int8
-;
-// " ++ [128512]%N ++ runes_of_ascii " emoji
-// `tick` ""quote"" 'q'
-repeatCount = ' ' u128 =  ""\" ++ [233]%N ++ runes_of_ascii """ ;  charz =
-    char[
-    // " ++ [128512]%N ++ runes_of_ascii " emoji
-    007]	}	MetaData string_ {
-    i64
-    Foo
-//
-// packet A { u8 x, }
-`say ""hi""`
-    , chars calculatedFrom
-//x
-//x
-,	}")).
-Eval vm_compute in ("<<<M583>>>" ++ check (runes_of_ascii "root packet crc  { repeat zchar[ 3
-    // trailing space 
-    ] Header`u8 x,` ,  @leftPad( ' ' )
-char[]
-    string_ `say ""hi""` ,
-    @tag(
-4294967296) repeat  f32a {
-    MetaDataX { repeat u f32a
-    // trailing space 
-    ,  }
-,
-    } , char[ 3 ]	repeatCount //x
-`it's`,	@tag( 255) Packet `u8 x,`
-, @rightPad
-    ( // a // b
-) int32	i64_ `` ,@tag( 4294967296)i8
-    o`{ , }`
-    ,
-    @tag(4294967296 ) @calculatedFrom(""a\""b""
-) char[] trueish ,
-@lengthOf(u8x )i8i8
-    { metadata zchar ,
-repeat a1 {	Header , }
-,//
-As
-{ match Z9_ as matchKey {
-    ""packet""	:calculatedFrom , [ // @lengthOf(
-4294967296 , """ ++ [233]%N ++ runes_of_ascii "t" ++ [233]%N ++ runes_of_ascii """ , ""`tick`"" , 65535
-    , """ ++ [28040; 24687]%N ++ runes_of_ascii """ ,""// no comment"" ,  65535] : trueish
-    ,},
-    repeat metadata	{ repeat _x body `
-`	,  chars
-    MetaDataX `crlf
+    trueish
+)	repeat
+	chars
+	{ zchar[
+
+00
+
+] 
+T
+@calculatedFrom(
+""a	b"")`crlf
 line`
-    , uint16 // trailing space 
-u8x	@lengthOf(	As) `
-`  , }//	t
-, uint8
-    /// triple
-    f32a ,
-},
-    }
-, char[] Logon
-, }
-")).
-Eval vm_compute in ("<<<M244>>>" ++ check (runes_of_ascii "MetaData falsey { string tag
-`// not a comment` , } packet x
-{ char[]int @lengthOf( u)
-`u8 x,`
-    ,
-@calculatedFrom( ""abc"" ) @leftPad ('0')@tag( 255) repeat T {
-f32a
-`" ++ [233]%N ++ runes_of_ascii "`  ,
-u128 @calculatedFrom( """ ++ [128512]%N ++ runes_of_ascii """ ) // a // b
-,
-    // c
-    repeat
-float { char[] x ,}
-    ,
-},@lengthOf( Header
-)string_ @lengthOf(Logon )//	t
-, body
-Pad `" ++ [28040; 24687; 31867; 22411]%N ++ runes_of_ascii "`,
-}packet matchKey { }
-    //	t
-    packet options1	{
-    string	a1 @calculatedFrom( ""{,}"" ) ,}	packet x {match a1 as i64_ { 1
-: Packet , ""abc"": crc ,
-    }
-    , int8
-calculatedFrom@lengthOf( i8i8
-    //	t
-    ),
-    @calculatedFrom( """"	)
-@calculatedFrom( """ ++ [128512]%N ++ runes_of_ascii """ ) lengthOf
-`a\`, char[1  ] u8x , zchar[ 007]// packet A { u8 x, }
-metadata  @calculatedFrom(// a // b
-""\n"" ) , @lengthOf(
-len) @rightPad ( ) char[
-    // " ++ [27880; 37322]%N ++ runes_of_ascii "
-    10 // packet A { u8 x, }
-]	Pad , repeat options1 `{ , }`,
-    char[] tag @lengthOf( Packet ),}
-")).
-Eval vm_compute in ("<<<M3589>>>" ++ check (runes_of_ascii "options {
-    LittleEndian = true;
-    StringPrefixLenType = u64;
-    ArrayPrefixLenType = u8;
-    FixedStringPadChar = '0';
-}
-
-packet Reject {
-    i32 Ref,
-    repeat f64 OrderId,
-    repeat InNote12 {
-        u8 pad0,
-    },
-    @leftPad(' ')
-    char[6] count,
-}
-
-packet Logout {
-    zchar[6] Tail,
-    repeat string venue,
-}
-
-packet Cancel {
-    u64 count,
-    repeat char[5] lastPx,
-    i64 Tail,
-    repeat InF140 {
-        repeat Logout,
-        repeat Reject,
-    },
-}
-
-root packet Trade {
-    repeat InMsgkind39 {
-        repeat Reject,
-        char[4] Px,
-    },
-    string Acct,
-    uint16 price,
-    f32 OrderId,
-    u16 x,
-    u16 clOrdID @lengthOf(Body),
-    match x as Body {
-        178 : Logout,
-        13 : Cancel,
-        174 : Reject,
-    },
-    u16 Flags @calculatedFrom(""CR\
-        C32""),
-}")).
-Eval vm_compute in ("<<<M1400>>>" ++ check (runes_of_ascii "options
-    //	t
-    {
-    As = false } //	t
-packet falsey { @lengthOf(float// packet A { u8 x, }
-) @calculatedFrom( ""\n"" ) u32 As , match leftPad
-as repeatCount {
-    0 :  Z9_ , 1
-: repeatCount , [// trailing space 
-65535// c
-]:
-Pad	00
-    :
-    packetx ""a\\""
-:
-packetx,00 :crc , } ,
-repeat Packet
-    , repeat float /// triple
-{ u128
-    @calculatedFrom( """ ++ [28040; 24687]%N ++ runes_of_ascii """
-    ) `say ""hi""` , u64	Foo `say ""hi""` ,  } , @leftPad(
-'\x00'
-)	@tag(
-1 )@calculatedFrom(  ""`tick`""
-    ) f64 lengthOf
-, @rightPad(
-'0' ) @leftPad (
-) @lengthOf( f32a)repeat i64_ x_y_z, @rightPad ( '\x00'
-)o@calculatedFrom( """"  ) `a\`	,
-// a // b
-//x
-asx
-    { repeat T
-chars
-`` ,repeat char[ 0 ]
-string_ ,  } , repeat
-char repeatCount `u8 x,` , zchar[7 ]
-T@calculatedFrom(
-// packet A { u8 x, }
-//x
-""a\\""
-)  , }
-")).
-Eval vm_compute in ("<<<M3515>>>" ++ check (runes_of_ascii "options {
-    LittleEndian = false;
-    StringPrefixLenType = u16;
-    ArrayPrefixLenType = u32;
-}
-packet Order {
-    uint8 x,
-    repeat string venue,
-}
-packet Heartbeat {
-    i64 count,
-    zchar[1] Qty,
-    repeat InX29 {
-        InSeqno26 {
-            int64 f1,
-            char[5] Acct,
-            Order,
-        },
-        repeat InSide285 {
-            repeat Order,
-            char[10] Px,
-            zchar[9] OrderId,
-        },
-        char[] venue,
-        Order,
-    },
-    @rightPad('\x00') char[4] clOrdID,
-}
-root packet Party {
-    zchar[3] f1,
-    u32 clOrdID,
-    u32 Px @lengthOf(Body),
-    match clOrdID as Body {
-        [180, 64] : Heartbeat,
-        11 : Order,
-    },
-    u32 Side2 @calculatedFrom(""CR\
-C32""),
-}
-")).
-Eval vm_compute in ("<<<M4228>>>" ++ check (runes_of_ascii "options {
-    Header = 7;
-    Z9_ = true;
-    f32a = false
-    Packet = true;
-}
-
-packet matchKey {
-    char[] Foo `crlf
-        line`,
-}
-
-packet Pad {
-    repeat char[7] crc,
-    calculatedFrom,
-    @leftPad()
-    //x
-    // " ++ [128512]%N ++ runes_of_ascii " emoji
-    i16 BodyLength,
-    @tag(42)
-    match rootA as uint8x {
-        ""a	b"" : As,
-    },
-    @calculatedFrom("""")
-    repeat x `" ++ [233]%N ++ runes_of_ascii "`,
-    @tag(007)
-    Packet Pad,
-    uint64 u8x `tab	here`,
-    asx {
-        packetx MetaDataX,
-        repeat _x {
-            asx {
-                string rootA `line1
-                                line2`,// a // b
-            },
-        },
-    },
-    @tag(007)
-    i64 i64_,// " ++ [27880; 37322]%N ++ runes_of_ascii "
-    @lengthOf(Z9_)
-    char[] asx @lengthOf(body),
-}")).
-Eval vm_compute in ("<<<M363>>>" ++ check (runes_of_ascii "packet A {
-repeat
-    o Z9_ ,
-    @calculatedFrom( """ ++ [233]%N ++ runes_of_ascii "t" ++ [233]%N ++ runes_of_ascii """ ) @calculatedFrom(
-    ""a\\"" ) @tag( 42) match Header as
-    // packet A { u8 x, }
-    tag {
-    ""`tick`"" :
-As , [
-    ""\" ++ [233]%N ++ runes_of_ascii """ ] :
-asx[ 3
-,  ""1"", ""\n"" , 007
-,
-    ""\n"" ] :options1 ""abc"" :
-//	t
-/// triple
-falsey , 4294967296 :	metadata , } ,  @tag(4294967296) tag @calculatedFrom( """ ++ [128512]%N ++ runes_of_ascii """ ) , }
-    // `tick` ""quote"" 'q'
-    packet stringy {
-    char[]
-packetx
-`
-`,string leftPad @lengthOf(float
-    ) ,@tag( //	t
-65535 )	@lengthOf( packetx) @lengthOf( Pad )
-// trailing space 
-// " ++ [27880; 37322]%N ++ runes_of_ascii "
-repeatCount BodyLength , // a // b
-char[] A
-    @lengthOf( // packet A { u8 x, }
-a1)
-    `two words` , }
-packet falsey // " ++ [27880; 37322]%N ++ runes_of_ascii "
-{ }")).
-Eval vm_compute in ("<<<M872>>>" ++ check (runes_of_ascii "
-root // c
-packet len {
-Logon tag `say ""hi""`// c
-, uint16
-// packet A { u8 x, }
-// trailing space 
-Logon ,
-match packetx as Foo	{ 65535// trailing space 
-: asx
-, // @lengthOf(
-""abc"" //
-: x_y_z
-42 :asx} , f64
-trueish
-    ,  @lengthOf(a1 )repeat// " ++ [128512]%N ++ runes_of_ascii " emoji
-char[  4294967296
-]
-    uint8x `two words`
-,	match
-    calculatedFrom as string_ { 4294967296 : crc , ""abc"" :
-    T //	t
-,
-[ 255 ] : msg_type , // c
-}, match MetaDataX as
-len  { 10 : _x// c
-,
-} , match	float
-    as  Pad {
-    ""x y""
-:BodyLength ,
-[""a	b"" ,
-""x y"" ]  : chars
-, 0 : calculatedFrom//x
-, 0123456789
-: stringy
-,
-[ ""abc"" ]
-// c
-// " ++ [128512]%N ++ runes_of_ascii " emoji
-:
-i64_
-    , }
-, }")).
-Eval vm_compute in ("<<<M3797>>>" ++ check (runes_of_ascii "
-
-  // " ++ [128512]%N ++ runes_of_ascii " emoji
-	packet	// @lengthOf(
-	int	{ match
-
-    zchar
-as
-    _x 
-{
-
-[4294967296
-]	:x_y_z
-
-    , 
-[ 
-""a\""b""	// @lengthOf(
-		]:
-
-    chars
 	,
-    [
-""it's""  ,
-    ""\" ++ [233]%N ++ runes_of_ascii """ ,
-	""packet"",""{,}""	] 
-:f32a  } ,
-	x{repeat 
-asx{ zchar[ 0123456789
-]crc
+char[	// @lengthOf(
 
-    `crlf
-line`
-
-, msg_type
-    i8i8`crlf
-line`
-,uint16	rootA@calculatedFrom( ""a\\""	) 
-	// @lengthOf(
-  	,	Logon
-x_y_z	`" ++ [233]%N ++ runes_of_ascii "`
-	, } ,
-
-} , }
-
-packet
-	u
-    {match
-pack
-
-as
-    trueish//x
-      { 
-""1""	:
-
-    len """ ++ [128512]%N ++ runes_of_ascii """ :leftPad
-,4294967296 	 // @lengthOf(
-    : 
-metadata ,
-} 
+	0
+	]	chars  , }
 ,
-    int T	`line1
-line2`
-    , f32
-Logon	,
+uint8 
+// a // b
+    	rootA  @lengthOf(  int
+
+    )
+, 
+@lengthOf(
+
+packetx
+
+    )
+	char[
+
+007	]
+
+uint8x
+@calculatedFrom( ""\" ++ [233]%N ++ runes_of_ascii """
+	)  , u
+
+    {
+char[]
+    Pad
+
+@calculatedFrom( ""\n""	)  ,}  ,
+char[
+	10
+
+]  pack
+
+@lengthOf(
+
+_x //	t
+    )
+
+    `two words` ,
+char[] 
+Logon
+
+@lengthOf(body
+
+    )
+    , 
+@lengthOf(
+matchKey )chars
+	{ uint16	pack	,char[
+4294967296] 
+
+// trailing space 
+	/// triple
+	options1 @calculatedFrom(
+""CRC32"" ) // packet A { u8 x, }
+	,
+u32 
+i64_`say ""hi""`	,  lengthOf `// not a comment`
+	,
+
+    },
+options1@lengthOf(  x
+    )
+	, } ")).
+Eval vm_compute in ("<<<M4028>>>" ++ check (runes_of_ascii "packet a1 {
+    @lengthOf(packetx)
+    A @lengthOf(T) `tab	here`,
+    zchar[42] Header,// " ++ [128512]%N ++ runes_of_ascii " emoji
+    @leftPad('0')
+    match o as int {
+        1 : Logon,
+    },
+    repeat packetx `line1
+        line2`,
+    string x @calculatedFrom(""CRC32""),
+    i8 repeatCount `// not a comment`,
+    match i64_ as x_y_z {
+        3 : len,
+        4294967296 : u8x,
+        00 : crc,
+        [
+            10, 007, 3, 00, """ ++ [128512]%N ++ runes_of_ascii """,
+            0123456789, 0123456789
+        ] : tag,
+        42 : repeatCount,
+    },
+    @lengthOf(f32a)
+    @lengthOf(stringy)
+    @calculatedFrom(""\" ++ [233]%N ++ runes_of_ascii """)
+    repeat i64 As,
+    @rightPad()
+    repeat leftPad {
+        uint32 crc @calculatedFrom(""" ++ [233]%N ++ runes_of_ascii "t" ++ [233]%N ++ runes_of_ascii """),
+    },
 }
-options
 
-    {	}
+MetaData Pad {
+    As pack,
+}
 
-")).
-Eval vm_compute in ("<<<M3857>>>" ++ check (runes_of_ascii "
+root packet len {
+    @calculatedFrom(""\" ++ [233]%N ++ runes_of_ascii """)
+    int64 a1 @calculatedFrom(""CRC32""),
+}
+// c")).
+Eval vm_compute in ("<<<M4167>>>" ++ check (runes_of_ascii "
 
   packet
 
-leftPad
-{
-@calculatedFrom(""\" ++ [233]%N ++ runes_of_ascii """ )
-    @rightPad (
-'0' )
-
-@lengthOf(
-	asx  )BodyLength trueish`it's`
+    A{ repeat
+    o Z9_
 
     ,
-@leftPad
-    (	'\x00' ) A	// " ++ [128512]%N ++ runes_of_ascii " emoji
-  i8i8	`
-`
+	@calculatedFrom(""" ++ [233]%N ++ runes_of_ascii "t" ++ [233]%N ++ runes_of_ascii """
+)@calculatedFrom(	""a\\""
 
-    ,
-	@tag(
-    0
-
-)matchKey
+) 
+@tag( 42)match Header
+as 
+    // packet A { u8 x, }
+tag 
 {
-
-int16
-
-falsey `line1
-line2`
-
-    , /// triple
-} , 	 // " ++ [128512]%N ++ runes_of_ascii " emoji
-  match
-	tag as falsey {[ 
-""packet""
-
-]:i64_
-
-    3 :
-leftPad,}, @calculatedFrom(""// no comment""  )string
-a1
-    ,@leftPad // trailing space 
-  ( 
-	// `tick` ""quote"" 'q'
-	// @lengthOf(
-  '\x00'	)@calculatedFrom(
-    """ ++ [28040; 24687]%N ++ runes_of_ascii """)
-	@calculatedFrom(
 ""`tick`""
-	)
+:As
+,
+    [""\" ++ [233]%N ++ runes_of_ascii """
+	]
+:
+asx[
 
-    repeat chars
-    As
+    3,
+    ""1""
+, ""\n""
 
-    , }")).
-Eval vm_compute in ("<<<M1146>>>" ++ check (runes_of_ascii "options
-    {
-    // " ++ [27880; 37322]%N ++ runes_of_ascii "
-    tag = ' '
-leftPad // c
-=  255 x_y_z=
-uint32; // a // b
-falsey= """ ++ [28040; 24687]%N ++ runes_of_ascii """ As  =""packet"" ; }packet As
+,007	,""\n"" ]
+	:	options1 ""abc"" :
+    //	t
+/// triple
+	falsey  ,	4294967296
+:metadata ,	}
+,
+@tag(
+
+    4294967296
+
+    )	tag
+
+@calculatedFrom(  """ ++ [128512]%N ++ runes_of_ascii """
+),
+
+    }
+// `tick` ""quote"" 'q'
+    packet
+    stringy
+
 {
-@lengthOf( u ) repeat
-u8 i8i8 `two words`,
-@tag( 00 // " ++ [27880; 37322]%N ++ runes_of_ascii "
-)@tag(	1 //x
+char[]
+
+packetx 
+`
+` ,string	leftPad@lengthOf(float )  ,
+    @tag(	//	t
+  65535
+) @lengthOf(
+	packetx
+
 )
-    char[ 255 ] a1	@lengthOf( zchar )  , i32
+
+    @lengthOf(
+
+    Pad  ) 
+
+    // trailing space 
+
+	// " ++ [27880; 37322]%N ++ runes_of_ascii "
+		repeatCount
+	BodyLength , // a // b
+  	char[]
+
+A
+    @lengthOf(	// packet A { u8 x, }
+	a1) `two words`,
+
+} packet  falsey	// " ++ [27880; 37322]%N ++ runes_of_ascii "
+      {
+
+    }
+
+")).
+Eval vm_compute in ("<<<M395>>>" ++ check (runes_of_ascii "root packet x { f32
+uint8x @calculatedFrom(""it's"" ) , @calculatedFrom(""CRC32"" ) uint8x
+// packet A { u8 x, }
+// c
+`line1
+line2`,match
+    // packet A { u8 x, }
+    uint8x as falsey { 0	:
+    chars """ ++ [128512]%N ++ runes_of_ascii """// packet A { u8 x, }
+: roots
+, 0123456789 : stringy ,""x y""
+    : Logon
+, } ,  } packet	metadata {  match calculatedFrom as repeatCount // c
+{
+""it's"" : calculatedFrom 4294967296
+    : int,	} ,
+    string packetx
+    ,
+match T // " ++ [128512]%N ++ runes_of_ascii " emoji
+as pack {
+// `tick` ""quote"" 'q'
+// packet A { u8 x, }
+""it's"":
     //
-    u, repeat	float32 tag ,
+    Z9_
+, 00:Packet	,
+"""" : leftPad , [ 65535]  : pack, }
+,
+    }
+    // " ++ [128512]%N ++ runes_of_ascii " emoji
+    MetaData zchar	{Logon uint8x `" ++ [233]%N ++ runes_of_ascii "` ,
+stringy leftPad , char[] // packet A { u8 x, }
+As `" ++ [28040; 24687; 31867; 22411]%N ++ runes_of_ascii "`
+    ,_x trueish  `two words` , u8 o`
+`, } 	 ")).
+Eval vm_compute in ("<<<M793>>>" ++ check (runes_of_ascii "MetaData options1 { float64 //
+msg_type
+`say ""hi""`
+    , u32 x,f64
+// a // b
+//	t
+tag ,
+} root packet
+    chars
+    /// triple
+    {
+}
+    packet
+    repeatCount { @lengthOf(
+a1	) rootA @lengthOf( crc
+// trailing space 
+// @lengthOf(
+) , } root
+packet x
+    {	chars @lengthOf( msg_type
+    ) ,
+    // trailing space 
+    int16 metadata @lengthOf(
+    // @lengthOf(
+    Pad ) , @tag( 3) @lengthOf(
+a1	)uint8
+options1 ,
+    repeat string _x `" ++ [233]%N ++ runes_of_ascii "`
+,string f32a@calculatedFrom(
+""{,}""
+)
+    `{ , }` ,@tag( 4294967296	) @calculatedFrom(""// no comment""
+)@leftPad ( ) BodyLength
+@lengthOf(
+    falsey
+    // a // b
+    ) `a\`, /// triple
+repeat string
+int `
+`
+    // " ++ [27880; 37322]%N ++ runes_of_ascii "
+    , u8
+    lengthOf , }")).
+Eval vm_compute in ("<<<M3958>>>" ++ check (runes_of_ascii "packet trueish {
+    i64 T `it's`,
+    repeat _x {
+        char[] charz,
+        leftPad {
+            u64 uint8x ``,
+            // c
+        },
+    },
+    string asx @calculatedFrom(""1"") `tab	here`,
+    @lengthOf(T)
+    match A as msg_type {
+        [42, ""// no comment"", ""x y"", """ ++ [128512]%N ++ runes_of_ascii """, ""CRC32""] : Logon,
+        255 : matchKey,
+    },// trailing space 
+    uint32 stringy,
+    int64 msg_type @calculatedFrom(""" ++ [233]%N ++ runes_of_ascii "t" ++ [233]%N ++ runes_of_ascii """) `tab	here`,
+    repeat Logon {
+        repeat roots Header ``,
+        u16 falsey `a\`,
+    },
+    @lengthOf(leftPad)
+    // a // b
+    tag @calculatedFrom(""CRC32"") `" ++ [233]%N ++ runes_of_ascii "`,// @lengthOf(
+}
+
+MetaData Logon {
+    float32 int,
+}
+
+options {
+    // a // b
+}")).
+Eval vm_compute in ("<<<M998>>>" ++ check (runes_of_ascii "  root packet Packet {
+u128
+    `{ , }`
+, // @lengthOf(
+@calculatedFrom(""\n"")char[
+65535	] float@calculatedFrom(
+    /// triple
+    ""abc"" ) , f32a
+, f32 i64_, @leftPad( ' '
+)
+    @lengthOf( body ) @leftPad ( ' '
+) u64 x `doc`,char[ 00]
+int@lengthOf(roots
+)`tab	here` , float64 msg_type,
+    @calculatedFrom(
+""a\\""
+) @leftPad (
+// a // b
+// packet A { u8 x, }
+) match
+    zchar as
+_x{
+    10:
+asx
+,42
     //
-    A	,repeat uint8
+    :  A , 00 : options1
+    , [007]
+: chars, 65535
+// @lengthOf(
+//	t
+: _x [ ""a\""b"" ] : pack , } ,@tag( 10 )// " ++ [128512]%N ++ runes_of_ascii " emoji
+match o
+    as  a1	{ 255
+// trailing space 
+// packet A { u8 x, }
+:
+    lengthOf ,10 :
+float, } ,}
+")).
+Eval vm_compute in ("<<<M994>>>" ++ check (runes_of_ascii "packet trueish { i64 T// @lengthOf(
+`it's` ,
+    repeat	_x {
+    char[]
+charz ,
+leftPad
+{ u64 uint8x `` ,
+    // c
+    } ,	} ,string	asx @calculatedFrom( ""1"" )`tab	here` , @lengthOf( T )match A
+as
+msg_type
+{[42
+    , ""// no comment"" ,""x y""	,
+""" ++ [128512]%N ++ runes_of_ascii """ , ""CRC32"" ] :
+Logon
+    ,
+255
+    :matchKey , }, // trailing space 
+uint32 stringy , int64 msg_type @calculatedFrom(""" ++ [233]%N ++ runes_of_ascii "t" ++ [233]%N ++ runes_of_ascii """ ) `tab	here`
+    , repeat Logon {repeat roots Header`` , u16 falsey`a\`
+    ,
+} ,@lengthOf(leftPad )
+    // a // b
+    tag @calculatedFrom( //x
+""CRC32"" ) `" ++ [233]%N ++ runes_of_ascii "` ,// @lengthOf(
+}
+    MetaData Logon {float32
+int,} options {// a // b
+} 	 ")).
+Eval vm_compute in ("<<<M3502>>>" ++ check (runes_of_ascii "packet Logon // c1
+{ // c2
+string // c3a
+  // c3b
+user // c4
+, // c5a
+  // c5b
+}
+    // c6
+root packet Frame // c9a
+  // c9b
+{
+    // c10
+u8
+    // c11
+K , // c13
+match
+    // c14
+K
+    // c15
+as
+    // c16
+Body // c17a
+  // c17b
+{ 1 // c19a
+  // c19b
+: Logon // c21
+, // c22a
+  // c22b
+2 :
+    // c24
+Logout
+    // c25
+, } ,
+    // c28
+Tail , } packet // c32
+Logout
+    // c33
+{ // c34
+u16 // c35a
+  // c35b
+reason // c36a
+  // c36b
+, // c37
+} // c38a
+  // c38b
+packet // c39a
+  // c39b
+Tail // c40
+{ u32
+    // c42
+crc , // c44a
+  // c44b
+} // c45a
+  // c45b
+")).
+Eval vm_compute in ("<<<M19>>>" ++ check (runes_of_ascii "//
+packet
+/// triple
+// a // b
+chars {int16 int ,	match calculatedFrom as
+    zchar { 4294967296:
+i8i8 , [
+""// no comment"" ] :stringy, ""a\""b"" :	u128 007
+// @lengthOf(
+//x
+: msg_type , 65535
+    : a1 ,""""	: u128} ,
+Packet @lengthOf( f32a )
+`it's` , int16 stringy`u8 x,` , roots @lengthOf( trueish
+) , match charz as A
+    {	10
+    :A ,
+} ,  string
+    Header@calculatedFrom( ""`tick`"" )`doc` , }MetaData	roots { asx metadata,	int64 MetaDataX , char[  42 ] o `// not a comment` ,
+    f32 packetx ,rootA As `it's` , msg_type tag
+, }
+
+")).
+Eval vm_compute in ("<<<M4035>>>" ++ check (runes_of_ascii "// a // b
+MetaData crc {
+    uint8x len,
+    string BodyLength,
+    asx body `" ++ [233]%N ++ runes_of_ascii "`,
+    calculatedFrom i8i8,
+}
+
+packet Header {
+    @tag(3)
+    int64 uint8x,
+    repeat lengthOf {
+        match x as body {
+            """ ++ [128512]%N ++ runes_of_ascii """ : trueish,
+            3 : MetaDataX,
+            [""it's"", """"] : o,
+            ""CRC32"" : i8i8,
+        },
+    },
+    i64 lengthOf `u8 x,`,
+}
+
+packet pack {
+    @rightPad()
+    @tag(255)
+    repeat string leftPad `crlf
+        line`,
+}
+
+options {
+}
+
+packet Packet {
+    lengthOf,
+}")).
+Eval vm_compute in ("<<<M1169>>>" ++ check (runes_of_ascii "root
+    packet metadata {
+repeat
+    zchar[ 255 ]	matchKey `line1
+line2` ,
+@tag( 0
+)
+    // " ++ [128512]%N ++ runes_of_ascii " emoji
+    match // packet A { u8 x, }
+A as msg_type{ ""packet"":len 255 : roots	""" ++ [233]%N ++ runes_of_ascii "t" ++ [233]%N ++ runes_of_ascii """ : leftPad, ""CRC32"": Z9_
+    , //	t
+} , @leftPad
+(' ' ) char[] Logon , //x
+char[3 ]T
+`{ , }`	, uint64 metadata @calculatedFrom( // `tick` ""quote"" 'q'
+""1"" ) , @rightPad	()
+match
+    u as len  {[ ""\" ++ [233]%N ++ runes_of_ascii """ ,
+    ""1"" ] : f32a
+    }, u128 falsey , @calculatedFrom(	""" ++ [28040; 24687]%N ++ runes_of_ascii """ )As
+    @lengthOf( falsey ) ,
+}")).
+Eval vm_compute in ("<<<M384>>>" ++ check (runes_of_ascii "packet f32a { } packet trueish
+{ @rightPad
+// " ++ [27880; 37322]%N ++ runes_of_ascii "
+// c
+( ) rootA
+@lengthOf(	Pad
+    )
+,@tag(
+0 ) Logon @lengthOf(	trueish	) , As
+    `
+`,
+repeat int8
+    // " ++ [128512]%N ++ runes_of_ascii " emoji
+    Logon,
+@tag( 255
+) // `tick` ""quote"" 'q'
+char
+    A ,i64
+Header , match  Z9_
+as falsey {
+65535: x_y_z""CRC32"": // c
+float	,}  , i8 len , @tag(  7 ) // `tick` ""quote"" 'q'
+repeat rootA x_y_z
+,
+@tag(
+    00) zchar[ 007 // " ++ [128512]%N ++ runes_of_ascii " emoji
+] x_y_z`a\`  , } MetaData roots  { } // `tick` ""quote"" 'q'")).
+Eval vm_compute in ("<<<M1139>>>" ++ check (runes_of_ascii "root
+packet metadata{// packet A { u8 x, }
+@rightPad( ' ' // a // b
+) @leftPad (
+'\x00')f64 a1
+    `u8 x,`
+, // trailing space 
+char[ 7
+    ] metadata @lengthOf( Logon
+    )  ,@calculatedFrom( ""\n""
+    ) char[
+    4294967296 ] repeatCount
+, @tag( 65535)
+zchar[ 255 ] chars	@lengthOf(stringy )	, zchar // packet A { u8 x, }
+{ zchar @lengthOf(  crc
+/// triple
+// " ++ [27880; 37322]%N ++ runes_of_ascii "
+) // a // b
+,
+uint64
+    Packet`crlf
+line` ,
+    } ,
+    /// triple
+    } 	 ")).
+Eval vm_compute in ("<<<M1297>>>" ++ check (runes_of_ascii "root
+packet u8x { @calculatedFrom( ""{,}"" ) // trailing space 
+@rightPad (
+    '\x00')@leftPad
+('0' )	match
+    len
+as options1 {  007 // " ++ [27880; 37322]%N ++ runes_of_ascii "
+: charz ,""abc"":
+    options1 }
+,
+@tag(	007 // `tick` ""quote"" 'q'
+) char[ 42] Foo @calculatedFrom(
+""" ++ [233]%N ++ runes_of_ascii "t" ++ [233]%N ++ runes_of_ascii """ ),  } //
+packet
 //x
 // `tick` ""quote"" 'q'
-string_, @calculatedFrom(
-""a\""b""	) @lengthOf(
-Header )u{int8	asx ``, i32 Foo
-@lengthOf( // " ++ [27880; 37322]%N ++ runes_of_ascii "
-tag )`
-` , }
-    , float64 pack
-    , @tag(10) Foo //	t
-, match repeatCount as u8x { 42: o, } , }
-
-")).
-Eval vm_compute in ("<<<M672>>>" ++ check (runes_of_ascii "packet
-int
-{ string
-    x_y_z, roots , i8
-    /// triple
-    options1 , // " ++ [27880; 37322]%N ++ runes_of_ascii "
-@tag( 3) uint32
-charz@lengthOf(
-repeatCount ) `
-` // " ++ [27880; 37322]%N ++ runes_of_ascii "
-, @lengthOf( u )
-int8 a1
-    @calculatedFrom( """ ++ [128512]%N ++ runes_of_ascii """
-) ,
-    @tag(
-    00)
-match matchKey as
-    roots { ""a	b"" :
+u8x
+    {
+char[]
 // " ++ [27880; 37322]%N ++ runes_of_ascii "
-// @lengthOf(
-Packet  ,
-""CRC32""// " ++ [128512]%N ++ runes_of_ascii " emoji
-:Foo
-    , 007	://	t
-Foo }
-,  match T  as MetaDataX
-    {""{,}"" : BodyLength // `tick` ""quote"" 'q'
-,
-1:
-stringy, // packet A { u8 x, }
-"""":packetx ,00  :
-body 0
+// c
+body , uint32 // " ++ [27880; 37322]%N ++ runes_of_ascii "
+packetx ,  @lengthOf( o) i8 calculatedFrom @calculatedFrom( ""CRC32"" ) ,
+    } // " ++ [128512]%N ++ runes_of_ascii " emoji")).
+Eval vm_compute in ("<<<M1348>>>" ++ check (runes_of_ascii "MetaData
+asx {
+    //x
+    } packet falsey { @tag( 00 ) char[
+1 ] options1`crlf
+line`, // `tick` ""quote"" 'q'
+@tag( 3
+) asx {
+    Header @lengthOf( pack )
+    `say ""hi""` ,	match Pad as calculatedFrom
+    // " ++ [27880; 37322]%N ++ runes_of_ascii "
+    { ""{,}"" : string_[""x y"",	007 ]
     :
-Foo ,
-42  : x
-    /// triple
-    , },}
-")).
-Eval vm_compute in ("<<<M1389>>>" ++ check (runes_of_ascii "packet u128
-    { // @lengthOf(
-@lengthOf(
-u8x)	char[]
-lengthOf`it's` ,
-@calculatedFrom(""it's"" ) u16 metadata@calculatedFrom( ""// no comment"" )
-//x
-// " ++ [128512]%N ++ runes_of_ascii " emoji
-`// not a comment`
-    , @lengthOf( int )// @lengthOf(
-repeat trueish float ,
-    // c
-    char[  00] falsey , repeat
-    zchar[ 3] falsey ,@lengthOf(	pack )
-zchar[
-    //	t
-    007]
+    msg_type ,
+    ""abc"" : string_ ,
+[
 // c
-// " ++ [128512]%N ++ runes_of_ascii " emoji
-packetx @lengthOf( len
-    ) ,
-repeat// @lengthOf(
-char u `tab	here` ,Pad// @lengthOf(
-@lengthOf( leftPad  ) , }
+/// triple
+42 , 1, ""// no comment"" , ""\" ++ [233]%N ++ runes_of_ascii """ ,
+""`tick`"", ""`tick`"" , ""a\""b""] : Packet ,
+    255 :options1},
+} , }
 ")).
-Eval vm_compute in ("<<<M3767>>>" ++ check (runes_of_ascii "// top
-root packet msg_type {
-    // c3
-    i64 options1,
-    @lengthOf(f32a)
-    // c9
-    repeat uint16 Foo,
-    @calculatedFrom(""x y"")
-    // c16
-    repeat int64 pack,
+Eval vm_compute in ("<<<M4226>>>" ++ check (runes_of_ascii "packet pack {
+    @rightPad(' ')
+    A @calculatedFrom(""a\\"") `
+        `,
+    u8 f32a,
+    zchar[007] rootA `u8 x,`,
+    repeat string u128 `u8 x,`,
     @leftPad(' ')
-    // c24
-    uint8 Foo,
+    char[1] repeatCount @calculatedFrom(""\n"") `doc`,
+    o,
+    falsey leftPad,
+    @calculatedFrom(""a\""b"")
+    @leftPad('0')
+    //
+    // " ++ [27880; 37322]%N ++ runes_of_ascii "
+    roots {
+        u8 zchar @lengthOf(Logon),
+        // c
+        //	t
+    },
+}")).
+Eval vm_compute in ("<<<M4008>>>" ++ check (runes_of_ascii "MetaData o {
+    u32 string_,
+    char[] a1 `crlf
+        line`,
+    int8 options1,
 }
 
-// c28
-packet rootA {
-    // c31
-    f32a x `two words`,
-    // c35
-    char asx @lengthOf(falsey) `u8 x,`,
-    @lengthOf(i64_)
-    // c45
-    uint16 chars,
+packet Foo {
+    @lengthOf(matchKey)
+    f32 f32a,
     @tag(0)
-    // c51
-    string _x @calculatedFrom(""abc"") `// not a comment`,
+    // @lengthOf(
+    match MetaDataX as trueish {
+        //	t
+        255 : T,
+        4294967296 : pack,
+        3 : falsey,
+        ""1"" : uint8x,
+        7 : u128,
+        4294967296 : MetaDataX,
+    },
+    i32 roots,
 }")).
-Eval vm_compute in ("<<<M172>>>" ++ check (runes_of_ascii "// c
-options  {
-i8i8
-    = """ ++ [28040; 24687]%N ++ runes_of_ascii """
-    // trailing space 
-    ; Pad= ' ' }root packet i8i8{ i64 matchKey`" ++ [233]%N ++ runes_of_ascii "`
-,match repeatCount as x// @lengthOf(
-{
-//	t
-// a // b
-42 : float
-    ,
-007 : u , }
-// trailing space 
-//x
-,
-@calculatedFrom( ""a	b"" ) string_
-// @lengthOf(
-/// triple
-{  matchKey string_
-    ,// trailing space 
-} , repeat char[] repeatCount
-    , }
-options // a // b
-{
-msg_type =
-true ; int
-// " ++ [128512]%N ++ runes_of_ascii " emoji
-// " ++ [27880; 37322]%N ++ runes_of_ascii "
-= u16	string_
-    = false ;}")).
-Eval vm_compute in ("<<<M160>>>" ++ check (runes_of_ascii "root packet o
-    { }	packet T{ zchar[ 4294967296
-]asx `say ""hi""` ,} MetaData f32a{f64 MetaDataX  `say ""hi""`
-    // packet A { u8 x, }
-    ,x_y_z
-    rootA`doc`
-, //	t
-u32
-repeatCount
-    /// triple
-    ,
-string T
-, u8x u`doc` ,} options {x_y_z
-    = 0	} // packet A { u8 x, }
-root packet// c
-MetaDataX { @calculatedFrom( ""abc""
-) @calculatedFrom(
-    """ ++ [128512]%N ++ runes_of_ascii """ ) @tag( 3
-) charz@lengthOf(
-Packet )
-    `line1
-line2` ,	} /// triple")).
-Eval vm_compute in ("<<<M3538>>>" ++ check (runes_of_ascii "options {
-    LittleEndian = false;
-    StringPrefixLenType = u8;
-    ArrayPrefixLenType = u16;
-    FixedStringPadFromLeft = false;
-}
-packet Heartbeat {
-    u8 seqNo,
-    @rightPad('\x00') char[8] x,
-}
-root packet Trade {
-    repeat Heartbeat,
-    float32 OrderId,
-    i64 Acct,
-    u16 Qty,
-    u16 clOrdID,
-    match clOrdID as Body {
-        131 : Heartbeat,
-    },
-    u16 sym @calculatedFrom(""CR\
-C32""),
-}
-")).
-Eval vm_compute in ("<<<M1067>>>" ++ check (runes_of_ascii "packet
-i64_	{
-x_y_z
-`it's`, o @lengthOf( i64_ )
-    // a // b
-    ,
-    char[007	]trueish
-// trailing space 
-/// triple
-@lengthOf( leftPad )
-    ,
-} MetaData tag {
-    char[ 65535
-]
-// c
-/// triple
-pack ,
-int64  Logon`two words` , // a // b
-}
-packet u8x
-{ float64
-    lengthOf , repeat char[]
-As,
-    u
-BodyLength ,tag { repeat BodyLength	{// a // b
-uint16 zchar `doc`,	}
-    ,
-    } , }
-")).
-Eval vm_compute in ("<<<M3935>>>" ++ check (runes_of_ascii "root packet roots {
-    i8i8 @calculatedFrom(""abc""),
-    repeat uint32 matchKey `doc`,
-    char[255] A @lengthOf(calculatedFrom) `{ , }`,
-    crc {
-        A Header `
-        `,
-        char[] o,
-        repeat zchar[1] body `" ++ [233]%N ++ runes_of_ascii "`,//	t
-    },
-    int8 u,
-    match packetx as u {
-        [0, ""`tick`""] : Packet,
-        ""\" ++ [233]%N ++ runes_of_ascii """ : Packet,
-        [4294967296] : matchKey,
-    },
-}")).
-Eval vm_compute in ("<<<M3954>>>" ++ check (runes_of_ascii "root packet metadata {
-    @rightPad(' ')
-    @leftPad('\x00')
-    f64 a1 `u8 x,`,// trailing space 
-    char[7] metadata @lengthOf(Logon),
-    @calculatedFrom(""\n"")
-    char[4294967296] repeatCount,
-    @tag(65535)
-    zchar[255] chars @lengthOf(stringy),
-    zchar {
-        zchar @lengthOf(crc),
-        uint64 Packet `crlf
-                line`,
-    },
-}")).
-Eval vm_compute in ("<<<M668>>>" ++ check (runes_of_ascii "root packet options1 { repeat
-    Packet { match // `tick` ""quote"" 'q'
-u8x as  metadata { ""packet"" : packetx
-,
-[
-""// no comment"" ,
-    // packet A { u8 x, }
-    ""a\\"" ]
-    : uint8x 1 // c
-: Foo , 0123456789 :	falsey
-, ""abc"":
-    x_y_z
-    , },}
-,
-    @rightPad (// a // b
-' ' )
-    f32a crc , @tag( 3 ) repeat char[0 ] pack // c
-`say ""hi""`, }
-")).
-Eval vm_compute in ("<<<M457>>>" ++ check (runes_of_ascii "root packet float  { char[]
-    metadata`two words` ,match u128 as leftPad // packet A { u8 x, }
-{""packet"" // c
-: f32a , }
-    , i64 MetaDataX @lengthOf(options1
-) ,
-    zchar[ 00 ]
+Eval vm_compute in ("<<<M990>>>" ++ check (runes_of_ascii "packet chars { @rightPad ( ) /// triple
+@tag( 42
+    ) @tag( 00// c
+)	int
 // @lengthOf(
 //
-Logon , @lengthOf( falsey) char[00] i64_ ,
-    @lengthOf( Pad ) u32
-Pad	`tab	here`
-, uint8 metadata
-    ,// packet A { u8 x, }
-}
-")).
-Eval vm_compute in ("<<<M670>>>" ++ check (runes_of_ascii "
-options
-    {// " ++ [27880; 37322]%N ++ runes_of_ascii "
-i8i8	=""abc"" } root packet o{
-}packet Header { string i8i8 `" ++ [233]%N ++ runes_of_ascii "` , @lengthOf( As )
-// packet A { u8 x, }
-// " ++ [128512]%N ++ runes_of_ascii " emoji
-@calculatedFrom(
-//x
-// packet A { u8 x, }
-""" ++ [128512]%N ++ runes_of_ascii """ )@leftPad( '0'
-)	repeat	A{
-char[
-255 ] options1 , repeat char[]int
-    // " ++ [27880; 37322]%N ++ runes_of_ascii "
-    `line1
-line2`
+len
+,zchar[ 4294967296 ]
+    asx `` ,	@rightPad (
+'0'
+)@calculatedFrom(
 /// triple
-// packet A { u8 x, }
-, } ,}
-")).
-Eval vm_compute in ("<<<M1590>>>" ++ check (runes_of_ascii "root packet Foo // " ++ [128512]%N ++ runes_of_ascii " emoji
-{ } options {
-    // a // b
-    tag // `tick` ""quote"" 'q'
-= //	t
-""""
-    ; u8x = zchar[0  ] }
-MetaData
-    int {zchar[ 10]
-lengthOf	`` , i64 u8x`// not a comment` ,MetaDataX pack// `tick` ""quote"" 'q'
-`crlf
-line`
-, Logon charz `crlf
-line` `crlf
-line`
-    ,
-    // a // b
-    }
-")).
-Eval vm_compute in ("<<<M1557>>>" ++ check (runes_of_ascii "root packet Foo // " ++ [128512]%N ++ runes_of_ascii " emoji
-{ } options {
-    // a // b
-    tag // `tick` ""quote"" 'q'
-= //	t
-""""
-    ; u8x = zchar[0  ] }
-MetaData
-    int {zchar[ 10]
-lengthOf	`` , i64 u8x`// not a comment` repeat MetaDataX pack// `tick` ""quote"" 'q'
-`crlf
-line`
-, Logon charz `crlf
-line`
-    ,
-    // a // b
-    }
-")).
-Eval vm_compute in ("<<<M1567>>>" ++ check (runes_of_ascii "root packet Foo // " ++ [128512]%N ++ runes_of_ascii " emoji
-{ } options {
-    // a // b
-    tag // `tick` ""quote"" 'q'
-= //	t
-""""
-    ; u8x = zchar[0  ] }
-MetaData
-    int {zchar[ 10]
-lengthOf	`` , i64 u8x`// not a comment` ,MetaDataX options// `tick` ""quote"" 'q'
-`crlf
-line`
-, Logon charz `crlf
-line`
-    ,
-    // a // b
-    }
-")).
-Eval vm_compute in ("<<<M1481>>>" ++ check (runes_of_ascii "root packet Foo // " ++ [128512]%N ++ runes_of_ascii " emoji
-{ } options {
-    // a // b
-    tag // `tick` ""quote"" 'q'
-= //	t
-""""
-    ; u8x = zchar[ ]  0 }
-MetaData
-    int {zchar[ 10]
-lengthOf	`` , i64 u8x`// not a comment` ,MetaDataX pack// `tick` ""quote"" 'q'
-`crlf
-line`
-, Logon charz `crlf
-line`
-    ,
-    // a // b
-    }
-")).
-Eval vm_compute in ("<<<M1502>>>" ++ check (runes_of_ascii "root packet Foo // " ++ [128512]%N ++ runes_of_ascii " emoji
-{ } options {
-    // a // b
-    tag // `tick` ""quote"" 'q'
-= //	t
-""""
-    ; u8x = zchar[0  ] }
-MetaData
-    i32 {zchar[ 10]
-lengthOf	`` , i64 u8x`// not a comment` ,MetaDataX pack// `tick` ""quote"" 'q'
-`crlf
-line`
-, Logon charz `crlf
-line`
-    ,
-    // a // b
-    }
-")).
-Eval vm_compute in ("<<<M1489>>>" ++ check (runes_of_ascii "root packet Foo // " ++ [128512]%N ++ runes_of_ascii " emoji
-{ } options {
-    // a // b
-    tag // `tick` ""quote"" 'q'
-= //	t
-""""
-    ; u8x = zchar[0  ] 
-MetaData
-    int {zchar[ 10]
-lengthOf	`` , i64 u8x`// not a comment` ,MetaDataX pack// `tick` ""quote"" 'q'
-`crlf
-line`
-, Logon charz `crlf
-line`
-    ,
-    // a // b
-    }
-")).
-Eval vm_compute in ("<<<M1497>>>" ++ check (runes_of_ascii "root packet Foo // " ++ [128512]%N ++ runes_of_ascii " emoji
-{ } options {
-    // a // b
-    tag // `tick` ""quote"" 'q'
-= //	t
-""""
-    ; u8x = zchar[0  ] }
-int8
-    int {zchar[ 10]
-lengthOf	`` , i64 u8x`// not a comment` ,MetaDataX pack// `tick` ""quote"" 'q'
-`crlf
-line`
-, Logon charz `crlf
-line`
-    ,
-    // a // b
-    }
-")).
-Eval vm_compute in ("<<<M1552>>>" ++ check (runes_of_ascii "root packet Foo // " ++ [128512]%N ++ runes_of_ascii " emoji
-{ } options {
-    // a // b
-    tag // `tick` ""quote"" 'q'
-= //	t
-""""
-    ; u8x = zchar[0  ] }
-MetaData
-    int {zchar[ 10]
-lengthOf	`` , i64 u8x char[] ,MetaDataX pack// `tick` ""quote"" 'q'
-`crlf
-line`
-, Logon charz `crlf
-line`
-    ,
-    // a // b
-    }
-")).
-Eval vm_compute in ("<<<M3696>>>" ++ check (runes_of_ascii "options {
-    Packet = '\x00'// " ++ [27880; 37322]%N ++ runes_of_ascii "
-    i64_ = 3;
-    falsey = 00;
-    x_y_z = 0;
-    Header = ""a\""b""
-}
-
-MetaData f32a {
-}
-
-options {
-    metadata = ""it's"";
-}
-
-options {
-}
-
-options {
-    calculatedFrom = int32;
-    len = """ ++ [128512]%N ++ runes_of_ascii """
-    _x = ""it's""
-    BodyLength = 0123456789
-}")).
-Eval vm_compute in ("<<<M274>>>" ++ check (runes_of_ascii "packet falsey
-    { //	t
-_x { T@calculatedFrom(
-""" ++ [28040; 24687]%N ++ runes_of_ascii """
-),int64 roots , match
-    float as a1 { 1//	t
-:falsey  , [
-    // c
-    ""CRC32""  ,""a\""b"" ,
-    255 , 65535 , 42	,0123456789]
-:
-pack
-, }, } , pack
-    { falsey//x
-, } , packetx // packet A { u8 x, }
+/// triple
+""{,}"")@lengthOf( repeatCount )	repeat uint64
+falsey `doc` , repeat zchar[ // packet A { u8 x, }
+0 ] u8x , } MetaData crc{
+uint32 packetx , }
+    packet float{ //
+u128 _x,}")).
+Eval vm_compute in ("<<<M647>>>" ++ check (runes_of_ascii "//x
+packet BodyLength { // a // b
+@tag( 10 //x
+) @calculatedFrom( ""1"" ) falsey
+uint8x
+,
+repeat trueish// trailing space 
+body ,	@leftPad ( '0' ) @calculatedFrom( """ ++ [28040; 24687]%N ++ runes_of_ascii """ )
+@calculatedFrom(
+""1""	) match falsey // packet A { u8 x, }
+as	matchKey
+{  ""x y"": As	, [ ""CRC32"" , 3]: Foo
+, """":roots /// triple
+,
+} // " ++ [27880; 37322]%N ++ runes_of_ascii "
+,string stringy
+    `{ , }`
 , }
 ")).
-Eval vm_compute in ("<<<M464>>>" ++ check (runes_of_ascii "MetaData _x
-    { BodyLength string_ `crlf
-line`,
-//x
-//x
-i64
-    //
-    zchar , calculatedFrom MetaDataX ,float32 Pad `it's`
+Eval vm_compute in ("<<<M3924>>>" ++ check (runes_of_ascii "options {
+}
+
+packet chars {
+    int64 i8i8 @calculatedFrom(""// no comment"") `line1
+        line2`,
+    @calculatedFrom(""`tick`"")
+    _x `" ++ [28040; 24687; 31867; 22411]%N ++ runes_of_ascii "`,
+    match float as BodyLength {
+        //
+        """ ++ [28040; 24687]%N ++ runes_of_ascii """ : x_y_z,
+        [
+            7, 10, """ ++ [233]%N ++ runes_of_ascii "t" ++ [233]%N ++ runes_of_ascii """, 1, ""x y"",
+            3
+        ] : i64_,
+    },// a // b
+}
+
+packet uint8x {
+}// " ++ [27880; 37322]%N)).
+Eval vm_compute in ("<<<M4055>>>" ++ check (runes_of_ascii "
+root	packet
+	Foo 	 // " ++ [128512]%N ++ runes_of_ascii " emoji
+	{ } options 
+{ 
+    // a // b
+  tag	// `tick` ""quote"" 'q'
+=  //	t
+  	"""" ;
+u8x 
+= zchar[
+    0
+	]
+
+    }MetaData int  {
+zchar[
+
+    10]
+lengthOf
+    ``, i64
+u8x`// not a comment` 
+,MetaDataX
+    pack	// `tick` ""quote"" 'q'
+
+  `crlf
+line`,charz
+Logon `crlf
+line` ,
+// a // b
+
+	} ")).
+Eval vm_compute in ("<<<M1065>>>" ++ check (runes_of_ascii "packet// a // b
+i64_
+{ repeat int64 asx	`line1
+line2`	, } options {
+    // trailing space 
+    chars=	255
+; tag =
+    // c
+    3  ;
+matchKey =0123456789 }
+    MetaData
+packetx {charz BodyLength ,//x
+MetaDataX _x `two words` ,
+MetaDataX BodyLength	, float32 f32a `line1
+line2`, zchar[0 ]
+    stringy, }
+")).
+Eval vm_compute in ("<<<M1465>>>" ++ check (runes_of_ascii "root packet Foo // " ++ [128512]%N ++ runes_of_ascii " emoji
+{ } options {
+    // a // b
+    tag // `tick` ""quote"" 'q'
+= //	t
+""""
+    ; u8x u8x = zchar[0  ] }
+MetaData
+    int {zchar[ 10]
+lengthOf	`` , i64 u8x`// not a comment` ,MetaDataX pack// `tick` ""quote"" 'q'
+`crlf
+line`
+, Logon charz `crlf
+line`
+    ,
+    // a // b
+    }
+")).
+Eval vm_compute in ("<<<M1470>>>" ++ check (runes_of_ascii "root packet Foo // " ++ [128512]%N ++ runes_of_ascii " emoji
+{ } options {
+    // a // b
+    tag // `tick` ""quote"" 'q'
+= //	t
+""""
+    ; u8x = = zchar[0  ] }
+MetaData
+    int {zchar[ 10]
+lengthOf	`` , i64 u8x`// not a comment` ,MetaDataX pack// `tick` ""quote"" 'q'
+`crlf
+line`
+, Logon charz `crlf
+line`
+    ,
+    // a // b
+    }
+")).
+Eval vm_compute in ("<<<M1622>>>" ++ check (runes_of_ascii "root packet Foo // " ++ [128512]%N ++ runes_of_ascii " emoji
+{ } options {
+    // a // b
+    tag // `tick` ""quote"" 'q'
+= //	t
+""""
+    ; u8x = zchar[0  ] }
+MetaData
+    int {zchar[ 10]
+lengthOf	`` , i64 u8x`// not a comment` ,MetaDataX pack// `tick` ""quote"" 'q'
+`crlf
+line`
+, Logon caf" ++ [233]%N ++ runes_of_ascii "_1 `crlf
+line`
+    ,
+    // a // b
+    }
+")).
+Eval vm_compute in ("<<<M1561>>>" ++ check (runes_of_ascii "root packet Foo // " ++ [128512]%N ++ runes_of_ascii " emoji
+{ } options {
+    // a // b
+    tag // `tick` ""quote"" 'q'
+= //	t
+""""
+    ; u8x = zchar[0  ] }
+MetaData
+    int {zchar[ 10]
+lengthOf	`` , i64 u8x`// not a comment` ,pack MetaDataX// `tick` ""quote"" 'q'
+`crlf
+line`
+, Logon charz `crlf
+line`
+    ,
+    // a // b
+    }
+")).
+Eval vm_compute in ("<<<M3336>>>" ++ check (runes_of_ascii "packet calculatedFrom // c1
+{ @tag( // c3a
+  // c3b
+4294967296 // c4
+) // c5
+u // c6a
+  // c6b
+msg_type
+    // c7
 ,
-    } packet As{
-    repeat//	t
-metadata BodyLength
-`a\` ,	string
-Packet`two words`
+    // c8
+char[ // c9
+3
+    // c10
+]
+    // c11
+crc
+    // c12
+@lengthOf( // c13a
+  // c13b
+len // c14a
+  // c14b
+) // c15a
+  // c15b
+`u8 x,`
+    // c16
+, // c17
+}
+    // c18
+")).
+Eval vm_compute in ("<<<M1584>>>" ++ check (runes_of_ascii "root packet Foo // " ++ [128512]%N ++ runes_of_ascii " emoji
+{ } options {
+    // a // b
+    tag // `tick` ""quote"" 'q'
+= //	t
+""""
+    ; u8x = zchar[0  ] }
+MetaData
+    int {zchar[ 10]
+lengthOf	`` , i64 u8x`// not a comment` ,MetaDataX pack// `tick` ""quote"" 'q'
+`crlf
+line`
+, Logon  `crlf
+line`
+    ,
+    // a // b
+    }
+")).
+Eval vm_compute in ("<<<M324>>>" ++ check (runes_of_ascii "packet charz
+    {repeat
+Z9_
+    x , @calculatedFrom( ""`tick`""
+) string A`crlf
+line` ,
+repeat
+    crc// trailing space 
+{
+repeat u8x , char[42 //
+] //x
+x @lengthOf(
+o )	,} ,} MetaData //
+tag { uint16 falsey
+    `say ""hi""` ,
+i32 asx ,char[ 007 ] As
+// a // b
 /// triple
+, }
+")).
+Eval vm_compute in ("<<<M3615>>>" ++ check (runes_of_ascii "
+
+  root packet len{
+
+@rightPad
+	( '0'
+    ) repeat msg_type Foo ,match
+
+    calculatedFrom
+as
+	roots
+{  00:	falsey
+
+    },@lengthOf(tag 
+)  match	// `tick` ""quote"" 'q'
+	int
+	as  rootA{ //
+  7
+    : _x , 
+} ,@calculatedFrom(	""\" ++ [233]%N ++ runes_of_ascii """ )  f64 	 // " ++ [27880; 37322]%N ++ runes_of_ascii "
+  	crc
+	,
+    } ")).
+Eval vm_compute in ("<<<M14>>>" ++ check (runes_of_ascii "MetaData	packetx {
+    packetx i64_ `say ""hi""` ,  } options {
+    } packet string_ {
+@lengthOf(repeatCount ) len
+{ zchar[ 10]
+// " ++ [128512]%N ++ runes_of_ascii " emoji
 // `tick` ""quote"" 'q'
-, }")).
-Eval vm_compute in ("<<<M1350>>>" ++ check (runes_of_ascii "packet charz
-    //	t
-    {
-@tag( 7 )@leftPad ( '0' ) @rightPad( '0'
-)repeat Logon
-, }  options // trailing space 
-{}
-    options {} MetaData  roots { float a1 `" ++ [233]%N ++ runes_of_ascii "`
-    // " ++ [27880; 37322]%N ++ runes_of_ascii "
-    ,  zchar[
-255 ]  calculatedFrom , u32 // " ++ [27880; 37322]%N ++ runes_of_ascii "
-Packet ,} //x")).
-Eval vm_compute in ("<<<M3693>>>" ++ check (runes_of_ascii "root packet Foo {
+u128 ,
+    f32
+    falsey`say ""hi""`
+,uint16// a // b
+f32a
+    `crlf
+line`
+,
+    } , }
+// " ++ [27880; 37322]%N ++ runes_of_ascii "
+")).
+Eval vm_compute in ("<<<M667>>>" ++ check (runes_of_ascii "  options { o=// `tick` ""quote"" 'q'
+""CRC32""; } options {Header=u32 ; // packet A { u8 x, }
+packetx=char[] T =char[	65535
+];
+// packet A { u8 x, }
+// a // b
+u8x =
+    ""// no comment"" ;
+string_
+    /// triple
+    = true ; }	root
+packet
+tag {} 	 ")).
+Eval vm_compute in ("<<<M3973>>>" ++ check (runes_of_ascii "
+packet// " ++ [27880; 37322]%N ++ runes_of_ascii "
+    trueish	{  match
+f32a
+as	stringy
+
+{ """ ++ [28040; 24687]%N ++ runes_of_ascii """
+
+    :
+    _x 
+, 
+1
+
+    :	//x
+  stringy 
+,
+65535 : u8x
+65535 
+: 	 // trailing space 
+asx
+
+    // packet A { u8 x, }
+	// c
+  ,
+
+} 
+	    // packet A { u8 x, }
+    ,
+    }
+
+")).
+Eval vm_compute in ("<<<M4054>>>" ++ check (runes_of_ascii "MetaData Packet {
+}
+
+packet asx {
+    @lengthOf(asx)
+    falsey `crlf
+    line`,
+}
+
+packet x {
+    // @lengthOf(
+    rootA,
+    u32 options1 `say ""hi""`,
+    @tag(7)
+    // packet A { u8 x, }
+    msg_type @lengthOf(stringy),
+}")).
+Eval vm_compute in ("<<<M4146>>>" ++ check (runes_of_ascii "options {
+    len = false// " ++ [128512]%N ++ runes_of_ascii " emoji
 }
 
 options {
-    // a //# b
-    tag = """";
-    u8x = zchar[0]
+    leftPad = ""`tick`"";
+    repeatCount = char[4294967296]
+    chars = ""`tick`""
 }
 
-MetaData int {
-    zchar[10] lengthOf ``,
-    i64 u8x `// not a comment`,
-    MetaDataX pack `crlf
-    line`,
-    Logon charz `crlf
+packet trueish {
+    u16 crc,
+    @tag(0123456789)
+    string trueish `crlf
     line`,
 }")).
-Eval vm_compute in ("<<<M4213>>>" ++ check (runes_of_ascii "packet As {
-    _x @lengthOf(f32a) `tab	here`,
-    match chars as chars {
-        """ ++ [233]%N ++ runes_of_ascii "t" ++ [233]%N ++ runes_of_ascii """ : stringy,
-        ""1"" : options1,
-        255 : repeatCount,
-        ""CRC32"" : float,
-    },
-    Logon int ``,
-    uint8x metadata,
-}")).
-Eval vm_compute in ("<<<M2328>>>" ++ check (runes_of_ascii "MetaData Packet { }packet	asx  { @lengthOf( asx) falsey`crlf
+Eval vm_compute in ("<<<M2271>>>" ++ check (runes_of_ascii "MetaData Packet { }packet	asx  { @lengthOf( asx) falsey`crlf
 line`
-,
+, ,
     }
     packet x	{uint32// @lengthOf(
-rootA	,u32 options1 `say ""hi""` @tag( @tag( 7
+rootA	,u32 options1 `say ""hi""` , @tag( 7
     )// packet A { u8 x, }
 msg_type @lengthOf(
 stringy	)	, }
 
 ")).
-Eval vm_compute in ("<<<M2257>>>" ++ check (runes_of_ascii "MetaData Packet { }packet	asx  { @lengthOf( asx falsey )`crlf
+Eval vm_compute in ("<<<M2392>>>" ++ check (runes_of_ascii "MetaData Packet { }packet	asx  { @lengthOf( asx) falsey`crlf
+line`
+,
+    }
+    packet x	{uint32// @lengthOf(
+rootA	,u32 options1 `say " ++ [127]%N ++ runes_of_ascii """hi""` , @tag( 7
+    )// packet A { u8 x, }
+msg_type @lengthOf(
+stringy	)	, }
+
+")).
+Eval vm_compute in ("<<<M2362>>>" ++ check (runes_of_ascii "MetaData Packet { }packet	asx  { @lengthOf( asx) falsey`crlf
+line`
+,
+    }
+    packet x	{uint32// @lengthOf(
+rootA	,u32 options1 `say ""hi""` , @tag( 7
+    )// packet A { u8 x, }
+msg_type @lengthOf(
+stringy	,	) }
+
+")).
+Eval vm_compute in ("<<<M2235>>>" ++ check (runes_of_ascii "MetaData Packet { }packet	  { @lengthOf( asx) falsey`crlf
 line`
 ,
     }
@@ -1745,524 +1936,457 @@ msg_type @lengthOf(
 stringy	)	, }
 
 ")).
-Eval vm_compute in ("<<<M2292>>>" ++ check (runes_of_ascii "MetaData Packet { }packet	asx  { @lengthOf( asx) falsey`crlf
+Eval vm_compute in ("<<<M2215>>>" ++ check (runes_of_ascii "( Packet { }packet	asx  { @lengthOf( asx) falsey`crlf
 line`
 ,
     }
-    packet x	uint32{// @lengthOf(
+    packet x	{uint32// @lengthOf(
 rootA	,u32 options1 `say ""hi""` , @tag( 7
     )// packet A { u8 x, }
 msg_type @lengthOf(
 stringy	)	, }
 
 ")).
-Eval vm_compute in ("<<<M2335>>>" ++ check (runes_of_ascii "MetaData Packet { }packet	asx  { @lengthOf( asx) falsey`crlf
-line`
-,
-    }
-    packet x	{uint32// @lengthOf(
-rootA	,u32 options1 `say ""hi""` , @tag( 
-    )// packet A { u8 x, }
-msg_type @lengthOf(
-stringy	)	, }
+Eval vm_compute in ("<<<M1027>>>" ++ check (runes_of_ascii "packet body { @calculatedFrom( ""a\""b"" ) T uint8x `` , } root packet rootA /// triple
+{ float64
+    leftPad// packet A { u8 x, }
+, u16 zchar,
+}
+    //	t
+    MetaData roots //	t
+{ u8 i64_ , } /// triple")).
+Eval vm_compute in ("<<<M3911>>>" ++ check (runes_of_ascii "packet crc {
+    @tag(0123456789)
+    i64 uint8x,
+}
 
-")).
-Eval vm_compute in ("<<<M1274>>>" ++ check (runes_of_ascii "options //x
-{ }
-    MetaData	i8i8
-    // @lengthOf(
-    {
-Z9_ //x
-MetaDataX
-    , } options { A=	""a	b"" ; crc =
-'0'; charz = false ; zchar
-    = string _x =
-""a\\"" }// packet A { u8 x, }
-root
-packet
-int { } 	 ")).
-Eval vm_compute in ("<<<M603>>>" ++ check (runes_of_ascii "packet
-    // c
-    stringy { u128
-@lengthOf( _x
-)
-,
-match
-    leftPad as i64_ { """ ++ [28040; 24687]%N ++ runes_of_ascii """: T, [
-""" ++ [233]%N ++ runes_of_ascii "t" ++ [233]%N ++ runes_of_ascii """	] : roots 65535// c
-: int}	,@tag( 65535 // c
-)
-    repeat string Logon,
-    // packet A { u8 x, }
-    }
-")).
-Eval vm_compute in ("<<<M953>>>" ++ check (runes_of_ascii "
-root packet i64_
-    {rootA {	zchar[1 ]
-    packetx
-@calculatedFrom( ""1"" ),
-// @lengthOf(
-/// triple
-} ,
-} options // " ++ [128512]%N ++ runes_of_ascii " emoji
-{ chars = // trailing space 
-char[]  ; falsey
-    =
-    u32 ; } //x")).
-Eval vm_compute in ("<<<M49>>>" ++ check (runes_of_ascii "// a // b
-root
-    packet string_ { i32 options1 `say ""hi""`
-, } packet stringy
-// " ++ [128512]%N ++ runes_of_ascii " emoji
-/// triple
-{
-    } MetaData
-len  {i8i8
-charz
-    `u8 x,`,
-// `tick` ""quote"" 'q'
-// trailing space 
-}")).
-Eval vm_compute in ("<<<M1118>>>" ++ check (runes_of_ascii "
-options{ // `tick` ""quote"" 'q'
-} options // packet A { u8 x, }
-{ As
-    = ""\n""
-// `tick` ""quote"" 'q'
-// a // b
-;	} MetaData
-    msg_type {string
-    trueish , } options { A= ""{,}"" ;}")).
-Eval vm_compute in ("<<<M242>>>" ++ check (runes_of_ascii "  options{
+MetaData i8i8 {
+    zchar[65535] int,
+}
+
+packet lengthOf {
     // trailing space 
-    A = ' '
-    ; calculatedFrom
-// c
-// a // b
-=
-    ""a\""b""
-;
-msg_type  =	char[ 4294967296] ;
-    //
-    rootA
-= '\x00' msg_type	= false }")).
-Eval vm_compute in ("<<<M4099>>>" ++ check (runes_of_ascii "root packet chars {
-    repeat a1 {
-        trueish x `" ++ [28040; 24687; 31867; 22411]%N ++ runes_of_ascii "`,
-    },
+    //	t
+    @leftPad('0')
+    falsey int,
 }
-
-MetaData metadata {
-    int32 int,
-    f64 uint8x `say ""hi""`,
-    i64 rootA `crlf
-    line`,
-}")).
-Eval vm_compute in ("<<<M602>>>" ++ check (runes_of_ascii "MetaData len{ uint16
-    packetx
-,
-i64 Header , f64 x_y_z`two words`, // c
-MetaDataX
-Packet ,
-trueish int ,int32
-    trueish ,
-    // " ++ [27880; 37322]%N ++ runes_of_ascii "
+// @lengthOf(")).
+Eval vm_compute in ("<<<M461>>>" ++ check (runes_of_ascii "root packet msg_type {
+float32 trueish
+    , uint16// @lengthOf(
+metadata , @lengthOf(  o ) // a // b
+@lengthOf( _x) @calculatedFrom( """" )Z9_
+    x_y_z,
+zchar[ 3]zchar	`tab	here`,
     }
-packet u8x {}
 ")).
-Eval vm_compute in ("<<<M1144>>>" ++ check (runes_of_ascii "packet f32a {
-@calculatedFrom(	""\" ++ [233]%N ++ runes_of_ascii """ )@calculatedFrom(""" ++ [128512]%N ++ runes_of_ascii """ )
-@lengthOf( int ) u8x @calculatedFrom( ""\" ++ [233]%N ++ runes_of_ascii """),
-float32
-    leftPad`doc` ,
-crc MetaDataX `" ++ [233]%N ++ runes_of_ascii "`, }")).
-Eval vm_compute in ("<<<M119>>>" ++ check (runes_of_ascii "MetaData  trueish {
-    chars	u8x // trailing space 
+Eval vm_compute in ("<<<M3>>>" ++ check (runes_of_ascii "packet
+    Foo{
+    uint64  Header @lengthOf( float )
+`
+`
+, // a // b
+char[]_x,@tag( 10
+    )
+char[] Packet , uint16 stringy @lengthOf(
+    calculatedFrom
+), }//x
+options	{ }")).
+Eval vm_compute in ("<<<M506>>>" ++ check (runes_of_ascii "MetaData body{
+i8
+zchar
+,string_ Foo
 ,
-A chars ,i8i8 asx `tab	here`
-    ,char[ 3 ]
-body	`" ++ [233]%N ++ runes_of_ascii "`,
-    zchar[	00	]
-u128 ,
-}
-/// triple
+char[
+3  ]MetaDataX  ,} options
+{body =
+    zchar[ 10
+]//
+;	msg_type  = 007 //	t
+Header = ""{,}"" ;
+    zchar = false
+    ;
+    }
 ")).
-Eval vm_compute in ("<<<M4346>>>" ++ check (runes_of_ascii "MetaData o {
-    char[] i64_ `{ , }`,
-    u16 tag,
-    char[] lengthOf `u8 x,`,
-    Z9_ rootA `
-    `,
-    zchar[3] u,
-    float T `{ , }`,
+Eval vm_compute in ("<<<M81>>>" ++ check (runes_of_ascii "root packet
+x_y_z {
+    @leftPad
+    (
+' ')uint8x { float32 len @calculatedFrom(""it's""
+    //
+    )
+`" ++ [233]%N ++ runes_of_ascii "` ,match o as stringy{ [""{,}""
+    ] : x
+    , }
+    ,
+}
+, }
+")).
+Eval vm_compute in ("<<<M1533>>>" ++ check (runes_of_ascii "root packet Foo // " ++ [128512]%N ++ runes_of_ascii " emoji
+{ } options {
+    // a // b
+    tag // `tick` ""quote"" 'q'
+= //	t
+""""
+    ; u8x = zchar[0  ] }
+MetaData
+    int {zchar[ 10]
+lengthOf")).
+Eval vm_compute in ("<<<M684>>>" ++ check (runes_of_ascii "root packet body
+    //	t
+    {@lengthOf(
+string_ )	match f32a as rootA{  [""x y""
+]
+// @lengthOf(
+// trailing space 
+:packetx
+//
+// a // b
+, }
+    , }")).
+Eval vm_compute in ("<<<M3925>>>" ++ check (runes_of_ascii "packet A
+    {
+match
+k
+
+as n
+
+    { [ ""a"", ""bb""
+, ""c c""
+    ,	""d"" ,""e"" ,
+""f"" , ""g""
+
+,""h"" ,
+""i"" ,
+	""j""
+, ""k"" ]
+
+:  B ,
+
+    2 
+: 
+C  }
+,
+
 }")).
-Eval vm_compute in ("<<<M1726>>>" ++ check (runes_of_ascii "root packet /// triple
-r@leftpadootA {	i32
+Eval vm_compute in ("<<<M132>>>" ++ check (runes_of_ascii "packet lengthOf
+{ options1 {	calculatedFrom`line1
+line2`	,
+} ,  @tag(
+4294967296 ) match	_x
+as msg_type	{ ""\" ++ [233]%N ++ runes_of_ascii """ // @lengthOf(
+:  o , },
+}")).
+Eval vm_compute in ("<<<M1727>>>" ++ check (runes_of_ascii "root packet /// triple
+rootA {	i32
+MetaDataX@calculatedFrom( ""CRC32"" ) `line1
+line2` , } MetaData BodyLength {
+u8
+'\x01' rootA, } // c")).
+Eval vm_compute in ("<<<M1206>>>" ++ check (runes_of_ascii "options
+    {
+// " ++ [27880; 37322]%N ++ runes_of_ascii "
+// trailing space 
+crc
+    =
+'\x00'
+}packet len {}
+    packet
+    // " ++ [27880; 37322]%N ++ runes_of_ascii "
+    repeatCount { } // trailing space ")).
+Eval vm_compute in ("<<<M1199>>>" ++ check (runes_of_ascii "options
+    {charz
+= 00 ; leftPad = zchar[0123456789
+    ] ;
+//x
+/// triple
+} options  { falsey= u32 ; }root packet float{
+    }
+")).
+Eval vm_compute in ("<<<M1637>>>" ++ check (runes_of_ascii "root packet /// triple
+rootA 	i32
 MetaDataX@calculatedFrom( ""CRC32"" ) `line1
 line2` , } MetaData BodyLength {
 u8
 rootA, } // c")).
-Eval vm_compute in ("<<<M1315>>>" ++ check (runes_of_ascii "packet
-lengthOf  { @calculatedFrom(
-""packet"" // `tick` ""quote"" 'q'
-) @lengthOf( /// triple
-options1 ) char[]int , } packet
-u8x {	}
-")).
-Eval vm_compute in ("<<<M1173>>>" ++ check (runes_of_ascii "  options { BodyLength=
-// trailing space 
-// a // b
-char[]
-    ; lengthOf =
-    // @lengthOf(
-    i8 asx = 7 ; rootA= ""a\""b"" ; }
-")).
-Eval vm_compute in ("<<<M1644>>>" ++ check (runes_of_ascii "root packet /// triple
-rootA {	MetaDataX
-i32@calculatedFrom( ""CRC32"" ) `line1
+Eval vm_compute in ("<<<M1735>>>" ++ check (runes_of_ascii "root packet /// triple
+rootA {	i32
+caf" ++ [233]%N ++ runes_of_ascii "_1@calculatedFrom( ""CRC32"" ) `line1
 line2` , } MetaData BodyLength {
 u8
 rootA, } // c")).
-Eval vm_compute in ("<<<M4275>>>" ++ check (runes_of_ascii "// " ++ [27880; 37322]%N ++ runes_of_ascii "
-options {
-    msg_type = '0'
-}
-
-packet _x {
-    @tag(00)
-    @tag(1)
-    char[] a1,
-}
-
-packet float {
-}
-
-MetaData Foo {
-}")).
-Eval vm_compute in ("<<<M703>>>" ++ check (runes_of_ascii "options { matchKey = // @lengthOf(
-1 x
-= ""\" ++ [233]%N ++ runes_of_ascii """
-//	t
-/// triple
-MetaDataX =""a\""b"" ; u128
-// c
-/// triple
-=""\" ++ [233]%N ++ runes_of_ascii """
-} packet	As{ }")).
-Eval vm_compute in ("<<<M3436>>>" ++ check (runes_of_ascii "packet B {
-    u8 a,
-}
-root packet P {
-    u8 K,
-    u64 L @lengthOf(Body),
-    match K as Body {
-        1 : B,
-    },
-}
-")).
-Eval vm_compute in ("<<<M596>>>" ++ check (runes_of_ascii "options {
-}  MetaData
-    // c
-    x_y_z
-{u32	u8x	`line1
-line2` , float64 u // a // b
-`line1
-line2`  , } // @lengthOf(")).
-Eval vm_compute in ("<<<M1884>>>" ++ check (runes_of_ascii "packet
-    Pad // a // b
-{ i8i8 @calculatedFrom( ""a	b"") `u8 x,` ,
-} options{ float// " ++ [128512]%N ++ runes_of_ascii " emoji
-= f64 i64_'
-=//	t
-00 }
-")).
-Eval vm_compute in ("<<<M1858>>>" ++ check (runes_of_ascii "packet
-    Pad // a // b
-{ i8i8 @calculatedFrom( ""a	b"") `u8 x,` ,
-} options{ float// " ++ [128512]%N ++ runes_of_ascii " emoji
-= f64 char
-=//	t
-00 }
-")).
-Eval vm_compute in ("<<<M1875>>>" ++ check (runes_of_ascii "packet
+Eval vm_compute in ("<<<M1872>>>" ++ check (runes_of_ascii "packet
     Pad // a // b
 { i8i8 @calculatedFrom( ""a	b"") `u8 x,` ,
 } options{ float// " ++ [128512]%N ++ runes_of_ascii " emoji
 = f64 i64_
 =//	t
-00 ")).
-Eval vm_compute in ("<<<M3494>>>" ++ check (runes_of_ascii "
-
-  packet FooBar 
-{u8
-a,  }  packet
-
-    foo_bar 
-{u16	b ,
-    }
-root packet
-    R
-    {FooBar ,foo_bar
-,
-} ")).
-Eval vm_compute in ("<<<M3010>>>" ++ check (runes_of_ascii "packet A {
-    u16 len @lengthOf(body) `a
-b`,
-    u32 crc @calculatedFrom(""CRC32"") `a
-b`,
-    string body,
+00 float64
+")).
+Eval vm_compute in ("<<<M4004>>>" ++ check (runes_of_ascii "packet As {
+    char[0123456789] repeatCount,
+    u32 _x `// not a comment`,
+    @tag(3)
+    repeat i64 len `say ""hi""`,
 }")).
-Eval vm_compute in ("<<<M3047>>>" ++ check (runes_of_ascii "packet A {
+Eval vm_compute in ("<<<M1879>>>" ++ check (runes_of_ascii "packet
+    Pad // a // b
+{ i8i8 @calculatedFrom( ""a	b"") `u8 x,` ,
+} options{ float// " ++ [128512]%N ++ runes_of_ascii " emoji
+= f64 i64_
+=//	t
+00 }
+@x")).
+Eval vm_compute in ("<<<M24>>>" ++ check (runes_of_ascii "packet _x { int32 u , @tag(3)char[ 255]
+    // @lengthOf(
+    A
+    @calculatedFrom( ""x y""
+    )
+`crlf
+line`,
+    }")).
+Eval vm_compute in ("<<<M1670>>>" ++ check (runes_of_ascii "root packet /// triple
+rootA {	i32
+MetaDataX@calculatedFrom( ""CRC32"" ) : , } MetaData BodyLength {
+u8
+rootA, } // c")).
+Eval vm_compute in ("<<<M144>>>" ++ check (runes_of_ascii "  packet rootA	{ int @lengthOf(
+    Packet // packet A { u8 x, }
+) // `tick` ""quote"" 'q'
+`// not a comment` , }
+")).
+Eval vm_compute in ("<<<M482>>>" ++ check (runes_of_ascii "options{
+charz
+= true ; roots
+    /// triple
+    = int64  trueish // trailing space 
+= // c
+""\n""charz = u8  }
+")).
+Eval vm_compute in ("<<<M3058>>>" ++ check (runes_of_ascii "packet A {
+    match k as n {
+        ""\
+"" : B,
+        [""\
+"", 1] : C,
+        [1,2,3,4,5,""\
+""] : D,
+    },
+}")).
+Eval vm_compute in ("<<<M3852>>>" ++ check (runes_of_ascii "packet calculatedFrom {
+    @tag(4294967296)
+    u msg_type,// c
+    char[3] crc @lengthOf(len) `u8 x,`,
+}")).
+Eval vm_compute in ("<<<M3011>>>" ++ check (runes_of_ascii "packet A {
     Inner {
-        u8 x `tab
-	x`,
+        u8 x `a
+b`,
         Deep {
-            u8 y `tab
-	x`,
+            u8 y `a
+b`,
         },
     },
 }")).
-Eval vm_compute in ("<<<M4233>>>" ++ check (runes_of_ascii "
-packet  o { 
-@tag(
-	42
-
-    ) repeat// c
-
-  x
-	{
-
-char[
-0123456789
-]
-	i64_ ,},	}
-
-    options{
-}
-
-")).
-Eval vm_compute in ("<<<M3361>>>" ++ check (runes_of_ascii "packet calculatedFrom { @tag( 4294967296 ) u msg_type , char[ 3 ] // c
-crc @lengthOf( len ) `u8 x,` , }")).
-Eval vm_compute in ("<<<M3492>>>" ++ check (runes_of_ascii "packet FooBar {
-    u8 a,
-}
-packet foo_bar {
-    u16 b,
-}
-root packet R {
-    FooBar,
-    foo_bar,
-}
-")).
-Eval vm_compute in ("<<<M969>>>" ++ check (runes_of_ascii "packet charz { // trailing space 
-@tag(255	) @calculatedFrom(""packet"" ) u32 repeatCount	,// c
-}
-")).
-Eval vm_compute in ("<<<M971>>>" ++ check (runes_of_ascii "options {}	packet
-    u128 {repeat uint8x x `say ""hi""` , // trailing space 
-}MetaData crc { }
-")).
-Eval vm_compute in ("<<<M3243>>>" ++ check (runes_of_ascii "packet Logon { @tag( 42 ) @rightPad ( ' ' ) @leftPad ( ) repeat
+Eval vm_compute in ("<<<M3368>>>" ++ check (runes_of_ascii "packet calculatedFrom { @tag( 4294967296 ) u msg_type , char[ 3 ] crc @lengthOf( len
 // c
-trueish { string T , } , }")).
-Eval vm_compute in ("<<<M1717>>>" ++ check (runes_of_ascii "root packet /// triple
-rootA {	i32
-MetaDataX@calculatedFrom( ""CRC32"" ) `line1
-line2` , } Met")).
-Eval vm_compute in ("<<<M4389>>>" ++ check (runes_of_ascii "packet A {
-    match k as n {
-        [22, 4, ""a"", ""c c"", ""e""] : B,
-        2 : C,
-    },
-}")).
-Eval vm_compute in ("<<<M2964>>>" ++ check (runes_of_ascii "packet A {
+) `u8 x,` , }")).
+Eval vm_compute in ("<<<M2019>>>" ++ check (runes_of_ascii "root
+packet crc
+    { f32a @calculatedFrom( """ ++ [233]%N ++ runes_of_ascii "t" ++ [233]%N ++ runes_of_ascii """ )
+    `say ""hi""`, lengthOf `` @calculatedFrom(  }")).
+Eval vm_compute in ("<<<M2939>>>" ++ check (runes_of_ascii "packet A {
   match k as n {
-    [1, 22, 007, 4, 5, 66, 7, 8, 9, 10] : B
+    [""a"", ""bb"", ""c c"", ""d"", ""e"", ""f"", ""g"", ""h""] : B,
     2 : C
   },
 }")).
-Eval vm_compute in ("<<<M2038>>>" ++ check (runes_of_ascii "root
+Eval vm_compute in ("<<<M1854>>>" ++ check (runes_of_ascii "packet
+    Pad // a // b
+{ i8i8 @calculatedFrom( ""a	b"") `u8 x,` ,
+} options{ float// " ++ [128512]%N ++ runes_of_ascii " emoji
+=")).
+Eval vm_compute in ("<<<M3244>>>" ++ check (runes_of_ascii "packet Logon { @tag( 42 ) @rightPad ( ' ' ) @leftPad ( ) repeat trueish // c
+{ string T , } , }")).
+Eval vm_compute in ("<<<M2948>>>" ++ check (runes_of_ascii "packet A {
+  match k as n {
+    [""a"", ""bb"", 007, ""d"", ""e"", 66, ""g"", ""h""] : B
+    2 : C
+  },
+}")).
+Eval vm_compute in ("<<<M4305>>>" ++ check (runes_of_ascii "root packet lengthOf {
+    repeat char[0] i8i8 `" ++ [233]%N ++ runes_of_ascii "`,
+    MetaDataX @calculatedFrom(""abc""),
+}")).
+Eval vm_compute in ("<<<M4447>>>" ++ check (runes_of_ascii "MetaData _x
+	{
+    zchar[ 4294967296  ]	lengthOf`// not a comment` 
+        // c
+    , } ")).
+Eval vm_compute in ("<<<M3978>>>" ++ check (runes_of_ascii "
+MetaData Z9_
+{
+	a1
+	    //
+    /// triple
+
+  Z9_ ,
+
+zchar[
+    10]
+
+x ,} options{ }
+
+")).
+Eval vm_compute in ("<<<M1973>>>" ++ check (runes_of_ascii "root
+packet crc
+    f32a { @calculatedFrom( """ ++ [233]%N ++ runes_of_ascii "t" ++ [233]%N ++ runes_of_ascii """ )
+    `say ""hi""`, lengthOf `` ,  }")).
+Eval vm_compute in ("<<<M2946>>>" ++ check (runes_of_ascii "packet A {
+  match k as n {
+    [1, 22, ""c c"", 4, 5, ""f"", 7, 8] : B
+    2 : C
+  },
+}")).
+Eval vm_compute in ("<<<M3332>>>" ++ check (runes_of_ascii "packet o { @tag( 42 ) repeat x { char[ 0123456789 ] i64_ , } , } options { } // c
+")).
+Eval vm_compute in ("<<<M3311>>>" ++ check (runes_of_ascii "packet o { @tag( 42 ) repeat x {
+// c
+char[ 0123456789 ] i64_ , } , } options { }")).
+Eval vm_compute in ("<<<M2020>>>" ++ check (runes_of_ascii "root
 packet crc
     { f32a @calculatedFrom( """ ++ [233]%N ++ runes_of_ascii "t" ++ [233]%N ++ runes_of_ascii """ )
-    `say ""hi""`, lengthOf $`` ,  }")).
-Eval vm_compute in ("<<<M3054>>>" ++ check (runes_of_ascii "packet A {
-    u32 crc @calculatedFrom(""x\
-y""),
-    @calculatedFrom(""x\
-y"") u8 y,
-}")).
-Eval vm_compute in ("<<<M1966>>>" ++ check (runes_of_ascii "root
-packet 
+    `say ""hi""`, lengthOf ``")).
+Eval vm_compute in ("<<<M2009>>>" ++ check (runes_of_ascii "root
+packet crc
     { f32a @calculatedFrom( """ ++ [233]%N ++ runes_of_ascii "t" ++ [233]%N ++ runes_of_ascii """ )
-    `say ""hi""`, lengthOf `` ,  }")).
-Eval vm_compute in ("<<<M3302>>>" ++ check (runes_of_ascii "packet o { @tag( 42 // c
-) repeat x { char[ 0123456789 ] i64_ , } , } options { }")).
-Eval vm_compute in ("<<<M3758>>>" ++ check (runes_of_ascii "
-
-  packet
-A{
-match
-k as
-
-    n	{[
-""a""  ,	""bb""
-    ]	: B 
-,
-
-    2	:C }
-,
-} ")).
-Eval vm_compute in ("<<<M3949>>>" ++ check (runes_of_ascii "packet Inner {
+    `say ""hi""`, } `` ,  }")).
+Eval vm_compute in ("<<<M2888>>>" ++ check (runes_of_ascii "packet A {
+  match k as n {
+    [""a"", ""bb"", ""c c"", ""d""] : B
+    2 : C
+  },
+}")).
+Eval vm_compute in ("<<<M4224>>>" ++ check (runes_of_ascii "packet Inner {
     u8 a,
 }
 
 root packet P {
-    repeat Inner items,
+    Inner ref_obj,
     u8 x,
 }")).
-Eval vm_compute in ("<<<M2911>>>" ++ check (runes_of_ascii "packet A {
-  match k as n {
-    [1, 22, 007, 4, 5, 66] : B,
-    2 : C
-  },
-}")).
-Eval vm_compute in ("<<<M689>>>" ++ check (runes_of_ascii "MetaData i64_ { options1
-x	`crlf
-line`,} packet u { } // trailing space ")).
-Eval vm_compute in ("<<<M3394>>>" ++ check (runes_of_ascii "
-// c
-MetaData _x { zchar[ 4294967296 ] lengthOf `// not a comment` , }")).
-Eval vm_compute in ("<<<M3406>>>" ++ check (runes_of_ascii "MetaData _x { zchar[ 4294967296 ]
-// c
-lengthOf `// not a comment` , }")).
-Eval vm_compute in ("<<<M2010>>>" ++ check (runes_of_ascii "root
-packet crc
-    { f32a @calculatedFrom( """ ++ [233]%N ++ runes_of_ascii "t" ++ [233]%N ++ runes_of_ascii """ )
-    `say ""hi""`,")).
-Eval vm_compute in ("<<<M2881>>>" ++ check (runes_of_ascii "packet A {
-  match k as n {
-    [1, 22, ""c c""] : B
-    2 : C
-  },
-}")).
-Eval vm_compute in ("<<<M388>>>" ++ check (runes_of_ascii "MetaData calculatedFrom  { // a // b
-u64
-A, float32 u8x ,}
-// " ++ [27880; 37322]%N ++ runes_of_ascii "
-")).
-Eval vm_compute in ("<<<M2160>>>" ++ check (runes_of_ascii "root
+Eval vm_compute in ("<<<M2154>>>" ++ check (runes_of_ascii "root root
     // `tick` ""quote"" 'q'
-    i32 As { trueish Packet , }
+    packet As { trueish Packet , }
 ")).
-Eval vm_compute in ("<<<M2856>>>" ++ check (runes_of_ascii "zchar[ @lengthOf( int8 u64 f32 : float64 ( char[] @tag( char[")).
-Eval vm_compute in ("<<<M2171>>>" ++ check (runes_of_ascii "root
+Eval vm_compute in ("<<<M3403>>>" ++ check (runes_of_ascii "MetaData _x { zchar[ 4294967296 // c
+] lengthOf `// not a comment` , }")).
+Eval vm_compute in ("<<<M802>>>" ++ check (runes_of_ascii "// `tick` ""quote"" 'q'
+packet zchar{ repeat char[
+    1 ] f32a  ``, }")).
+Eval vm_compute in ("<<<M2205>>>" ++ check (runes_of_ascii "root
     // `tick` ""quote"" 'q'
-    packet As {  Packet , }
+    packet As { trueish @Packet , }
 ")).
+Eval vm_compute in ("<<<M3703>>>" ++ check (runes_of_ascii "MetaData _x {
+    zchar[4294967296] lengthOf `// not a comment`,
+}")).
+Eval vm_compute in ("<<<M416>>>" ++ check (runes_of_ascii "  root packet u
+//	t
+//	t
+{ Foo
+int ,// `tick` ""quote"" 'q'
+}
+")).
+Eval vm_compute in ("<<<M2185>>>" ++ check (runes_of_ascii "root
+    // `tick` ""quote"" 'q'
+    packet As { trueish Packet")).
+Eval vm_compute in ("<<<M2897>>>" ++ check (runes_of_ascii "packet A { Inner { match k as n { [1,22,007,4] : B, }, }, }")).
 Eval vm_compute in ("<<<M1942>>>" ++ check (runes_of_ascii "
 packet	As { @calculatedFrom(//x
 ""{,}""	)len@xgthOf , } 	 ")).
-Eval vm_compute in ("<<<M629>>>" ++ check (runes_of_ascii "options  { options1 =
-    65535
-    ; msg_type= u64} 	 ")).
+Eval vm_compute in ("<<<M4441>>>" ++ check (runes_of_ascii "
+packet A {char[ 	 // a
+  3// b
+    ]// c
+  	x  , 
+}
+
+")).
 Eval vm_compute in ("<<<M1776>>>" ++ check (runes_of_ascii "options { }options {  } // `tick` ""quote"" 'q@leftpad'")).
-Eval vm_compute in ("<<<M4337>>>" ++ check (runes_of_ascii "MetaData
-
-zchar  { zchar[3 ]
-
-Pad, 
-
-    // c
-  }
-
+Eval vm_compute in ("<<<M1241>>>" ++ check (runes_of_ascii "MetaData u8x
+{
+uint32 metadata
+`line1
+line2` , }
 ")).
-Eval vm_compute in ("<<<M2028>>>" ++ check (runes_of_ascii "root
-packet crc
-    { f32a @calculatedFrom( """ ++ [233]%N ++ runes_of_ascii "t" ++ [65533]%N)).
-Eval vm_compute in ("<<<M837>>>" ++ check (runes_of_ascii "MetaData // @lengthOf(
-tag{  lengthOf Pad
-, }
-")).
-Eval vm_compute in ("<<<M1777>>>" ++ check (runes_of_ascii "?options { }options {  } // `tick` ""quote"" 'q'")).
-Eval vm_compute in ("<<<M420>>>" ++ check (runes_of_ascii "options {
-// " ++ [27880; 37322]%N ++ runes_of_ascii "
-//
-calculatedFrom
-= false }")).
-Eval vm_compute in ("<<<M3180>>>" ++ check (runes_of_ascii "packet A { char[ // a
- 3 // b
- ] // c
- x, }")).
-Eval vm_compute in ("<<<M2413>>>" ++ check (runes_of_ascii "[ A
+Eval vm_compute in ("<<<M2408>>>" ++ check (runes_of_ascii "MetaData A
 {
 i64
-chars	, } // `tick` ""quote"" 'q'")).
-Eval vm_compute in ("<<<M2607>>>" ++ check (runes_of_ascii "packet A { match k as n { [1 2] : B }, }")).
-Eval vm_compute in ("<<<M611>>>" ++ check (runes_of_ascii "  MetaData x_y_z
-{ } // trailing space ")).
+chars	, " ++ [233]%N ++ runes_of_ascii "} // `tick` ""quote"" 'q'")).
+Eval vm_compute in ("<<<M1743>>>" ++ check (runes_of_ascii "options { { }options {  } // `tick` ""quote"" 'q'")).
+Eval vm_compute in ("<<<M1769>>>" ++ check (runes_of_ascii "options |{ }options {  } // `tick` ""quote"" 'q'")).
+Eval vm_compute in ("<<<M3701>>>" ++ check (runes_of_ascii "MetaData pack {
+    i64 Header,
+    u64 As,
+}")).
+Eval vm_compute in ("<<<M2599>>>" ++ check (runes_of_ascii "packet A { B { match k as n { 1 : C }, }, }")).
+Eval vm_compute in ("<<<M2117>>>" ++ check (runes_of_ascii "MetaData x
+{// " ++ [128512]%N ++ runes_of_ascii " emoji
+uint32 stringy , }")).
+Eval vm_compute in ("<<<M2585>>>" ++ check (runes_of_ascii "packet A { x @calculatedFrom(""c"") `d`, }")).
+Eval vm_compute in ("<<<M3986>>>" ++ check (runes_of_ascii "root packet A {
+    u8 x `x
+        `,
+}")).
 Eval vm_compute in ("<<<M2116>>>" ++ check (runes_of_ascii "MetaData x
 {// " ++ [128512]%N ++ runes_of_ascii " emoji
 stringy i16 , }")).
-Eval vm_compute in ("<<<M2705>>>" ++ check (runes_of_ascii "] false ""`tick`"" charz { int64 zchar[")).
-Eval vm_compute in ("<<<M1321>>>" ++ check (runes_of_ascii "MetaData packetx { _x	metadata , }
+Eval vm_compute in ("<<<M2612>>>" ++ check (runes_of_ascii "packet A { match as as n { 1 : B }, }")).
+Eval vm_compute in ("<<<M1651>>>" ++ check (runes_of_ascii "root packet /// triple
+rootA {	i32")).
+Eval vm_compute in ("<<<M1240>>>" ++ check (runes_of_ascii "options { Packet	= ""packet"" ; }
 ")).
-Eval vm_compute in ("<<<M3875>>>" ++ check (runes_of_ascii "
-
-  MetaData 
-a1
-	{// a // b
-  }
-
-")).
-Eval vm_compute in ("<<<M3148>>>" ++ check (runes_of_ascii "packet A {
- u8 x `d x`, // c x
+Eval vm_compute in ("<<<M4278>>>" ++ check (runes_of_ascii "options {
+    u8x = 3
+    // c
 }")).
-Eval vm_compute in ("<<<M2085>>>" ++ check (runes_of_ascii "MetaD'\x01'ata A { u64 pack, }")).
-Eval vm_compute in ("<<<M937>>>" ++ check (runes_of_ascii "packet  f32a {stringy
-`` , }
-")).
-Eval vm_compute in ("<<<M3002>>>" ++ check (runes_of_ascii "packet A {
-    u8 x `a
-b`,
-}")).
-Eval vm_compute in ("<<<M819>>>" ++ check (runes_of_ascii "  packet
-repeatCount  {}
-
-")).
-Eval vm_compute in ("<<<M2089>>>" ++ check (runes_of_ascii "MetaData A @{ u64 pack, }")).
-Eval vm_compute in ("<<<M2049>>>" ++ check (runes_of_ascii "A MetaData { u64 pack, }")).
-Eval vm_compute in ("<<<M4276>>>" ++ check (runes_of_ascii "
-options  {	}	/// triple")).
-Eval vm_compute in ("<<<M1299>>>" ++ check (runes_of_ascii "  packet f32a {
-    }
-")).
-Eval vm_compute in ("<<<M2698>>>" ++ check (runes_of_ascii "`" ++ [233]%N ++ runes_of_ascii "` int16 [ ( options")).
-Eval vm_compute in ("<<<M4115>>>" ++ check (runes_of_ascii "MetaData
-    As{ }
-
-")).
-Eval vm_compute in ("<<<M914>>>" ++ check (runes_of_ascii "packet
-    As { }
-")).
-Eval vm_compute in ("<<<M3101>>>" ++ check (runes_of_ascii "packet A {
+Eval vm_compute in ("<<<M2802>>>" ++ check (runes_of_ascii "C" ++ [2]%N ++ runes_of_ascii "R" ++ [65533]%N ++ runes_of_ascii "L" ++ [16; 15; 65533; 65533; 65533]%N ++ runes_of_ascii "^o\8" ++ [65533; 65533]%N ++ runes_of_ascii "+Y" ++ [65533; 65533]%N ++ runes_of_ascii "9" ++ [65533; 65533]%N ++ runes_of_ascii "A" ++ [65533; 65533; 28]%N ++ runes_of_ascii "2+" ++ [15]%N)).
+Eval vm_compute in ("<<<M2444>>>" ++ check (runes_of_ascii "f32 f64 float32 float64 float")).
+Eval vm_compute in ("<<<M66>>>" ++ check (runes_of_ascii "packet Foo{ f64 Pad ,x
+, }")).
+Eval vm_compute in ("<<<M2052>>>" ++ check (runes_of_ascii "MetaData A A { u64 pack, }")).
+Eval vm_compute in ("<<<M2095>>>" ++ check (runes_of_ascii "MetaData A { u64 pack, }/")).
+Eval vm_compute in ("<<<M2063>>>" ++ check (runes_of_ascii "MetaData A { pack u64, }")).
+Eval vm_compute in ("<<<M4231>>>" ++ check (runes_of_ascii "packet 
+BodyLength
+{ 
 }
-// c" ++ [8233]%N)).
-Eval vm_compute in ("<<<M2644>>>" ++ check (runes_of_ascii "MetaData M { x, }")).
-Eval vm_compute in ("<<<M1975>>>" ++ check (runes_of_ascii "root
-packet crc")).
-Eval vm_compute in ("<<<M3156>>>" ++ check (runes_of_ascii "packet A {
-}
-
-
 ")).
-Eval vm_compute in ("<<<M1914>>>" ++ check (runes_of_ascii "
-packet	As {")).
-Eval vm_compute in ("<<<M2634>>>" ++ check (runes_of_ascii "packet A }")).
-Eval vm_compute in ("<<<M1904>>>" ++ check (runes_of_ascii "
-packet")).
-Eval vm_compute in ("<<<M2512>>>" ++ check (runes_of_ascii """a\b""")).
-Eval vm_compute in ("<<<M2701>>>" ++ check (runes_of_ascii "{ : =")).
-Eval vm_compute in ("<<<M2488>>>" ++ check (runes_of_ascii "@tag")).
-Eval vm_compute in ("<<<M2515>>>" ++ check (runes_of_ascii """`""")).
-Eval vm_compute in ("<<<M2517>>>" ++ check (runes_of_ascii "``")).
-Eval vm_compute in ("<<<M2685>>>" ++ check ([0]%N)).
+Eval vm_compute in ("<<<M1150>>>" ++ check (runes_of_ascii "/// triple
+options{	}
+")).
+Eval vm_compute in ("<<<M2780>>>" ++ check (runes_of_ascii "u8 ( MetaData : = f64")).
+Eval vm_compute in ("<<<M513>>>" ++ check (runes_of_ascii "packet
+uint8x { }
+")).
+Eval vm_compute in ("<<<M564>>>" ++ check (runes_of_ascii "MetaData
+Logon
+{ }")).
+Eval vm_compute in ("<<<M3091>>>" ++ check (runes_of_ascii "packet A {
+}
+// c" ++ [8202]%N)).
+Eval vm_compute in ("<<<M2569>>>" ++ check (runes_of_ascii "packet A { x y, }")).
+Eval vm_compute in ("<<<M851>>>" ++ check (runes_of_ascii "packet chars {	}")).
+Eval vm_compute in ("<<<M2804>>>" ++ check (runes_of_ascii "f32 u32 ""CRC32""")).
+Eval vm_compute in ("<<<M2065>>>" ++ check (runes_of_ascii "MetaData A {")).
+Eval vm_compute in ("<<<M2683>>>" ++ check (runes_of_ascii "// a
+// b
+")).
+Eval vm_compute in ("<<<M2457>>>" ++ check (runes_of_ascii "strings")).
+Eval vm_compute in ("<<<M3145>>>" ++ check (runes_of_ascii "// c x")).
+Eval vm_compute in ("<<<M3075>>>" ++ check (runes_of_ascii "// c" ++ [133]%N)).
+Eval vm_compute in ("<<<M2520>>>" ++ check (runes_of_ascii "`
+`")).
+Eval vm_compute in ("<<<M2530>>>" ++ check (runes_of_ascii "a.b")).
+Eval vm_compute in ("<<<M2552>>>" ++ check (runes_of_ascii "a" ++ [233]%N)).
